@@ -1,7 +1,8 @@
 """C01 -- binary record files reproduce the written table bit-for-bit."""
 import ast
+import string as _string
 
-from vcheck import cfront, effects, rules
+from vcheck import cfront, effects, pat, rules
 from vcheck.core import PyRepo, AnalysisError, call_name, dotted_name, kwarg, norm, walk_no_nested
 from vcheck.cstr import c_string_literal, printf_directives
 from vcheck.ctable import c_summaries
@@ -9,7 +10,7 @@ from vcheck.rules import cfg_of
 
 MANIFEST = dict(
     text="Format/framing agreement and pass-through rules over Python ast and clang AST (not a behavioural proof of byte equality): "
-         "(1) header framing: the trailer the Python writer puts after the pretty-printed dict is evaluated from the joined line list; the "
+         "(1) header framing: the text handed to the C++ header writer is evaluated symbolically (join / % / format / f-string, temporaries and private helpers folded) and the trailer after the pretty-printed dict read off it; the "
          "C++ reader's sentinel literal, comparison width and post-sentinel skip must reproduce exactly that trailer (data offset = header "
          "length) and the sentinel must be anchored by line boundaries on both sides so that user text containing END cannot match; the "
          "Python parser drops exactly the trailer lines; (2) SIZE line: prefix, width >= 20 and conversion agree between writer, in-place "
@@ -29,7 +30,727 @@ W = "esutil/recfile/records.cpp"
 
 # rules that keep their verdict however the code is laid out (decided by term equality, effect analysis or dominance over
 # resolved calls); every other rule of this check is a template rule (vcheck.core.Check.obt)
-SEMANTIC = ('R01.1', 'R01.4', 'R01.6')
+SEMANTIC = ('R01.1', 'R01.4', 'R01.6', 'R01.3::Records::Write', 'R01.3::Recfile.write[binary]', 'R01.3::Recfile.open')
+
+
+# ---------------------------------------------------------------------------
+# Symbolic values.  A rule of this check states what a value *is* (the text handed to the C++ header writer, the object
+# handed to Records::Write, the row count returned on the binary path ...), not how the function that computes it is laid
+# out.  `Ev` evaluates an expression at a CFG node to a term: locals are replaced through reaching definitions (on the
+# possibly flag-specialised view), `self.x` through its single dominating assignment, side-effect free helper methods and
+# functions of the package are inlined with their parameters bound, `sep.join([...])`, `%`, str.format and f-strings
+# become one concatenation.  Terms are nested tuples:
+#   ("lit", v) ("cat", pieces) ("fmt", spec, t) ("param", name) ("self",) ("attr", t, name) ("glob", dotted)
+#   ("call", dotted, args, kws) ("mcall", qualname, bound) ("meth", t, name, args, kws) ("sub", t, i) ("slice", t, lo, hi, st)
+#   ("tuple"|"list"|"set", items) ("dict", items) ("op", sym, a, b) ("cmp", op, a, b) ("not", t) ("bool", op, items)
+#   ("ifexp", c, a, b) ("phi", alternatives) ("elem", iterable) ("ctx", t) and opaque leftovers ("expr", text) ("rec", name)
+# ---------------------------------------------------------------------------
+
+def lit(v):
+    return ("lit", v)
+
+
+def is_lit(t, typ=None):
+    return isinstance(t, tuple) and len(t) == 2 and t[0] == "lit" and (typ is None or isinstance(t[1], typ))
+
+
+NONE = lit(None)
+SELF = ("self",)
+
+
+def mkcat(parts):
+    out = []
+    for p in parts:
+        for q in (p[1] if p[0] == "cat" else (p,)):
+            if is_lit(q, str):
+                if q[1] == "":
+                    continue
+                if out and is_lit(out[-1], str):
+                    out[-1] = lit(out[-1][1] + q[1])
+                    continue
+            out.append(q)
+    if not out:
+        return lit("")
+    if len(out) == 1:
+        return out[0]
+    return ("cat", tuple(out))
+
+
+def pieces(t):
+    return list(t[1]) if t[0] == "cat" else [t]
+
+
+def subterms(t):
+    """t and every tuple nested in it (terms, argument tuples, keyword pairs)"""
+    todo = [t]
+    while todo:
+        x = todo.pop()
+        if isinstance(x, tuple):
+            yield x
+            todo.extend(y for y in x if isinstance(y, tuple))
+
+
+def opaque(t):
+    """does the term contain something the evaluator could not resolve"""
+    return any(x and x[0] in ("expr", "rec", "phi", "mutable", "unbound", "callx", "elem") for x in subterms(t))
+
+
+def mentions_term(t, what):
+    return any(x == what for x in subterms(t))
+
+
+def show(t, depth=0):
+    """short human-readable text of a term"""
+    if not isinstance(t, tuple) or not t:
+        return repr(t)
+    k = t[0]
+    if depth > 6:
+        return "..."
+    s = lambda x: show(x, depth + 1)
+    if k == "lit":
+        return repr(t[1])
+    if k == "cat":
+        return " + ".join(s(p) for p in t[1])
+    if k == "fmt":
+        return "format(%s, %r)" % (s(t[2]), t[1])
+    if k == "param":
+        return t[1]
+    if k == "self":
+        return "self"
+    if k == "attr":
+        return "%s.%s" % (s(t[1]), t[2])
+    if k == "glob":
+        return t[1]
+    if k == "call":
+        return "%s(%s)" % (t[1], ", ".join([s(a) for a in t[2]] + ["%s=%s" % (n, s(v)) for n, v in t[3]]))
+    if k == "mcall":
+        return "self.%s(%s)" % (t[1].rsplit(".", 1)[-1], ", ".join("%s=%s" % (n, s(v)) for n, v in t[2]))
+    if k == "meth":
+        return "%s.%s(%s)" % (s(t[1]), t[2], ", ".join([s(a) for a in t[3]] + ["%s=%s" % (n, s(v)) for n, v in t[4]]))
+    if k == "sub":
+        return "%s[%s]" % (s(t[1]), s(t[2]))
+    if k == "slice":
+        return "%s[%s:%s]" % (s(t[1]), "" if t[2] == NONE else s(t[2]), "" if t[3] == NONE else s(t[3]))
+    if k in ("tuple", "list", "set"):
+        return "%s(%s)" % (k, ", ".join(s(x) for x in t[1]))
+    if k == "op":
+        return "(%s %s %s)" % (s(t[2]), t[1], s(t[3]))
+    if k == "cmp":
+        return "(%s %s %s)" % (s(t[2]), t[1], s(t[3]))
+    if k == "phi":
+        return "phi(%s)" % ", ".join(s(x) for x in t[1])
+    if k == "expr":
+        return t[1]
+    return "%s(%s)" % (k, ", ".join(s(x) if isinstance(x, tuple) else repr(x) for x in t[1:]))
+
+
+_BINOP = {ast.Add: "+", ast.Sub: "-", ast.Mult: "*", ast.Div: "/", ast.FloorDiv: "//", ast.Mod: "%", ast.Pow: "**",
+          ast.BitAnd: "&", ast.BitOr: "|", ast.BitXor: "^", ast.LShift: "<<", ast.RShift: ">>", ast.MatMult: "@"}
+_CMPOP = {ast.Eq: "Eq", ast.NotEq: "NotEq", ast.Lt: "Lt", ast.LtE: "LtE", ast.Gt: "Gt", ast.GtE: "GtE", ast.Is: "Is",
+          ast.IsNot: "IsNot", ast.In: "In", ast.NotIn: "NotIn"}
+_STR_PURE = ("upper", "lower", "strip", "lstrip", "rstrip", "title")
+
+
+class Ev:
+    MAXDEPTH = 4
+
+    def __init__(self, repo, fi=None, mod=None, flags=None, binds=None, depth=0, stack=()):
+        self.repo = repo
+        self.fi = fi
+        self.mod = mod if mod is not None else (fi.module if fi is not None else None)
+        self.flags = dict(flags or {})
+        self.binds = binds
+        self.depth = depth
+        self.stack = stack
+        self._busy = set()
+        self._memo = {}
+        if fi is not None:
+            self.cfg = cfg_of(fi)
+            self.view = self.cfg.specialise(flags=self.flags) if self.flags else self.cfg.view()
+            self._rd = None
+            self._owner = None
+            self._adefs = None
+            a = fi.node.args
+            pos = a.posonlyargs + a.args
+            self.selfname = pos[0].arg if (fi.cls and pos) else None
+
+    # -- bookkeeping ------------------------------------------------------
+    def rd(self):
+        if self._rd is None:
+            self._rd = self.view.reaching_defs()[0]
+        return self._rd
+
+    def owner(self, expr):
+        """the CFG node whose own expression contains `expr`"""
+        if self._owner is None:
+            own = {}
+            for n in self.cfg.nodes:
+                a = n.ast
+                if a is None:
+                    continue
+                if n.kind == "branch":
+                    roots = [a.test]
+                elif n.kind == "loop":
+                    roots = [a.test] if isinstance(a, ast.While) else [a.iter, a.target]
+                elif n.kind == "with":
+                    roots = [x for it in a.items for x in (it.context_expr, it.optional_vars) if x is not None]
+                elif n.kind in ("def", "handler", "try"):
+                    roots = []
+                else:
+                    roots = [a]
+                for r in roots:
+                    for x in ast.walk(r):
+                        own[id(x)] = n
+            self._owner = own
+        return self._owner.get(id(expr))
+
+    def attr_defs(self):
+        """{'self.x': [(node, value expr | None)]} over the reachable nodes"""
+        if self._adefs is None:
+            out = {}
+            for n in self.view.nodes():
+                a = n.ast
+                if n.kind != "stmt":
+                    continue
+                if isinstance(a, ast.Assign):
+                    for t in a.targets:
+                        if isinstance(t, ast.Attribute):
+                            out.setdefault(norm(t), []).append((n, a.value))
+                        elif isinstance(t, (ast.Tuple, ast.List)):
+                            for e in t.elts:
+                                if isinstance(e, ast.Attribute):
+                                    out.setdefault(norm(e), []).append((n, None))
+                elif isinstance(a, (ast.AugAssign, ast.AnnAssign)) and isinstance(a.target, ast.Attribute):
+                    out.setdefault(norm(a.target), []).append((n, None))
+            self._adefs = out
+        return self._adefs
+
+    def modev(self):
+        return Ev(self.repo, None, mod=self.mod, depth=self.depth + 1)
+
+    # -- entry points -----------------------------------------------------
+    def ev(self, e, at=None):
+        if self.fi is not None and at is None:
+            at = self.owner(e)
+        key = (id(e), at.id if at is not None else None)
+        if key in self._memo:
+            return self._memo[key]
+        if key in self._busy:
+            return ("rec", norm(e)[:40])
+        self._busy.add(key)
+        try:
+            t = self._ev(e, at)
+        finally:
+            self._busy.discard(key)
+        self._memo[key] = t
+        return t
+
+    def ev_src(self, src, at):
+        """evaluate a source expression as if it were written at node `at`"""
+        return self._ev(ast.parse(src, mode="eval").body, at)
+
+    # -- expressions ------------------------------------------------------
+    def _ev(self, e, at):
+        ev = lambda x: self.ev(x, at) if self.fi is None or self.owner(x) is not None else self._ev(x, at)
+        if isinstance(e, ast.Constant):
+            return lit(e.value)
+        if isinstance(e, ast.Name):
+            return self._name(e.id, at)
+        if isinstance(e, ast.Attribute):
+            return self._attr(e, at, ev)
+        if isinstance(e, ast.Call):
+            return self._call(e, at, ev)
+        if isinstance(e, ast.JoinedStr):
+            ps = []
+            for v in e.values:
+                if isinstance(v, ast.FormattedValue):
+                    t = ev(v.value)
+                    spec = ""
+                    if v.format_spec is not None:
+                        st = ev(v.format_spec)
+                        spec = st[1] if is_lit(st, str) else "?"
+                    ps.append(t if not spec else ("fmt", spec, t))
+                else:
+                    ps.append(ev(v))
+            return mkcat(ps)
+        if isinstance(e, ast.BinOp):
+            l, r = ev(e.left), ev(e.right)
+            if isinstance(e.op, ast.Mod) and is_lit(l, str):
+                t = _printf(l[1], list(r[1]) if r[0] == "tuple" else [r])
+                if t is not None:
+                    return t
+            if isinstance(e.op, ast.Add) and (_stringy(l) or _stringy(r)):
+                return mkcat([l, r])
+            if isinstance(e.op, ast.Add) and l[0] == r[0] and l[0] in ("tuple", "list"):
+                return (l[0], l[1] + r[1])
+            return ("op", _BINOP.get(type(e.op), "?"), l, r)
+        if isinstance(e, ast.UnaryOp):
+            t = ev(e.operand)
+            if isinstance(e.op, ast.Not):
+                return ("not", t)
+            if isinstance(e.op, ast.USub) and is_lit(t, (int, float)) and not isinstance(t[1], bool):
+                return lit(-t[1])
+            return ("uop", type(e.op).__name__, t)
+        if isinstance(e, ast.Compare):
+            if len(e.ops) == 1:
+                return ("cmp", _CMPOP[type(e.ops[0])], ev(e.left), ev(e.comparators[0]))
+            return ("expr", norm(e))
+        if isinstance(e, ast.BoolOp):
+            return ("bool", "and" if isinstance(e.op, ast.And) else "or", tuple(ev(v) for v in e.values))
+        if isinstance(e, ast.IfExp):
+            return ("ifexp", ev(e.test), ev(e.body), ev(e.orelse))
+        if isinstance(e, (ast.Tuple, ast.List, ast.Set)):
+            kind = {ast.Tuple: "tuple", ast.List: "list", ast.Set: "set"}[type(e)]
+            return (kind, tuple(("star", ev(x.value)) if isinstance(x, ast.Starred) else ev(x) for x in e.elts))
+        if isinstance(e, ast.Dict):
+            return ("dict", tuple((ev(k) if k is not None else ("**",), ev(v)) for k, v in zip(e.keys, e.values)))
+        if isinstance(e, ast.Subscript):
+            b = ev(e.value)
+            if isinstance(e.slice, ast.Slice):
+                f = lambda x: NONE if x is None else ev(x)
+                return ("slice", b, f(e.slice.lower), f(e.slice.upper), f(e.slice.step))
+            i = ev(e.slice)
+            if b[0] in ("tuple", "list") and is_lit(i, int) and not isinstance(i[1], bool) and -len(b[1]) <= i[1] < len(b[1]) \
+                    and not any(x[0] == "star" for x in b[1]):
+                return b[1][i[1]]
+            return ("sub", b, i)
+        if isinstance(e, ast.Starred):
+            return ("star", ev(e.value))
+        if isinstance(e, ast.NamedExpr):
+            return ev(e.value)
+        return ("expr", norm(e))
+
+    def _global(self, name):
+        m = self.mod
+        if m is not None:
+            if name in m.consts and self.depth < 8:
+                return self.modev().ev(m.consts[name])
+            if name in m.imports:
+                return ("glob", self.repo.resolve_name(m, name))
+            if name in m.funcs or name in m.classes:
+                return ("glob", m.name + "." + name)
+        return ("glob", name)
+
+    def _name(self, name, at):
+        if self.fi is None or at is None or at.id not in self.view.reach:
+            if self.fi is None:
+                return self._global(name)
+            return ("expr", name)
+        if name == self.selfname:
+            return SELF
+        defs = self.rd()[at.id].get(name)
+        if not defs:
+            return self._global(name)
+        alts = []
+        for d in sorted(defs):
+            t = self._param(name) if d == self.cfg.entry.id else self._def_term(self.cfg.node(d), name)
+            if t not in alts:
+                alts.append(t)
+        # a container literal that is filled in afterwards: its literal is not its value
+        alts = [("mutable", name) if x and x[0] in ("list", "dict", "set") and self._mutated(name) else x for x in alts]
+        return alts[0] if len(alts) == 1 else ("phi", tuple(sorted(alts, key=repr)))
+
+    def _mutated(self, name):
+        key = ("mut", name)
+        if key not in self._memo:
+            hit = False
+            for x in walk_no_nested(self.fi.node):
+                if isinstance(x, ast.Call) and isinstance(x.func, ast.Attribute) and isinstance(x.func.value, ast.Name) and x.func.value.id == name \
+                        and x.func.attr in effects.LIST_MUT_METHODS | {"add", "discard", "sort"}:
+                    hit = True
+                elif isinstance(x, ast.Subscript) and isinstance(x.ctx, (ast.Store, ast.Del)) and isinstance(x.value, ast.Name) and x.value.id == name:
+                    hit = True
+                elif isinstance(x, ast.AugAssign) and isinstance(x.target, ast.Name) and x.target.id == name:
+                    hit = True
+            self._memo[key] = hit
+        return self._memo[key]
+
+    def _param(self, name):
+        if self.binds is None:
+            return ("param", name)
+        if name in self.binds:
+            return self.binds[name]
+        d = self.fi.defaults.get(name)
+        if d is not None:
+            return self.modev().ev(d)
+        return ("unbound", name)
+
+    def _def_term(self, n, name):
+        a = n.ast
+        if n.kind == "stmt" and isinstance(a, ast.Assign):
+            for t in a.targets:
+                if isinstance(t, ast.Name) and t.id == name:
+                    return self.ev(a.value, n)
+                if isinstance(t, (ast.Tuple, ast.List)):
+                    for i, x in enumerate(t.elts):
+                        if isinstance(x, ast.Name) and x.id == name and not any(isinstance(y, ast.Starred) for y in t.elts):
+                            if isinstance(a.value, (ast.Tuple, ast.List)) and len(a.value.elts) == len(t.elts):
+                                return self.ev(a.value.elts[i], n)
+                            return ("sub", self.ev(a.value, n), lit(i))
+        if n.kind == "stmt" and isinstance(a, ast.AugAssign) and isinstance(a.target, ast.Name):
+            return ("op", _BINOP.get(type(a.op), "?"), self._name(name, n), self.ev(a.value, n))
+        if n.kind == "stmt" and isinstance(a, ast.AnnAssign) and a.value is not None:
+            return self.ev(a.value, n)
+        if n.kind == "loop" and isinstance(a, ast.For):
+            if isinstance(a.target, ast.Name):
+                return ("elem", self.ev(a.iter, n))
+            return ("elem", self.ev(a.iter, n), name)
+        if n.kind == "with":
+            for it in a.items:
+                if isinstance(it.optional_vars, ast.Name) and it.optional_vars.id == name:
+                    return ("ctx", self.ev(it.context_expr, n))
+        return ("expr", "%s@%s" % (name, n.kind))
+
+    def _attr(self, e, at, ev):
+        d = dotted_name(e)
+        if d is not None and self.fi is not None and at is not None:
+            head = d.split(".")[0]
+            if head == self.selfname and d.count(".") == 1 and at.id in self.view.reach:
+                ds = self.attr_defs().get(d, [])
+                if len(ds) == 1 and ds[0][1] is not None and ds[0][0].id != at.id and self.view.dominates(ds[0][0], at):
+                    return self.ev(ds[0][1], ds[0][0])
+                return ("attr", SELF, e.attr)
+        b = ev(e.value)
+        if b[0] == "glob":
+            full = b[1] + "." + e.attr
+            return ("glob", self.repo._follow(full) if full.startswith("esutil") else full)
+        return ("attr", b, e.attr)
+
+    # -- calls ------------------------------------------------------------
+    def _args(self, c, ev):
+        args = tuple(ev(a) for a in c.args)
+        kws = tuple(sorted(((k.arg or "**"), ev(k.value)) for k in c.keywords))
+        return args, kws
+
+    def bind(self, callee, args, kws, skip_self):
+        ps = [p for p in callee.params if not p.startswith("*")]
+        if skip_self:
+            ps = ps[1:]
+        if any(a[0] == "star" for a in args) or any(k == "**" for k, _ in kws) or len(args) > len(ps):
+            return None
+        b = dict(zip(ps, args))
+        for k, v in kws:
+            if k in b or (k not in ps and not any(p.startswith("**") for p in callee.params)):
+                return None
+            b[k] = v
+        return b
+
+    def inline(self, callee, bound):
+        """value returned by a side-effect free helper (straight assignments to locals, decided or merging branches, one
+        reachable return) with its parameters bound; None when the callee is anything more than that"""
+        if self.depth >= self.MAXDEPTH or callee.qualname in self.stack or (self.fi is not None and callee is self.fi):
+            return None
+        sub = Ev(self.repo, callee, flags=self.flags, binds=bound, depth=self.depth + 1,
+                 stack=self.stack + ((self.fi.qualname,) if self.fi is not None else ()))
+        rets = []
+        for n in sub.view.nodes():
+            a = n.ast
+            if n.kind in ("entry", "exit", "branch"):
+                continue
+            if n.kind == "return":
+                rets.append(n)
+                continue
+            if n.kind == "stmt":
+                if isinstance(a, ast.Pass) or (isinstance(a, ast.Expr) and isinstance(a.value, ast.Constant)):
+                    continue
+                if isinstance(a, ast.Assign) and all(isinstance(x, ast.Name) for t in a.targets for x in rules._flat_targets(t)):
+                    continue
+            return None
+        if len(rets) != 1 or rets[0].ast.value is None:
+            return None
+        return sub.ev(rets[0].ast.value, rets[0])
+
+    def resolve_self_method(self, c):
+        f = c.func
+        if self.fi is not None and self.fi.cls and isinstance(f, ast.Attribute) and isinstance(f.value, ast.Name) and f.value.id == self.selfname:
+            return self.repo.funcs.get("%s.%s.%s" % (self.mod.name, self.fi.cls, f.attr))
+        return None
+
+    def resolve_module_function(self, c):
+        f = c.func
+        if isinstance(f, ast.Name) and self.mod is not None and f.id in self.mod.funcs and self.mod.funcs[f.id].cls is None:
+            return self.mod.funcs[f.id]
+        return None
+
+    def _call(self, c, at, ev):
+        args, kws = self._args(c, ev)
+        callee = self.resolve_self_method(c)
+        if callee is not None:
+            b = self.bind(callee, args, kws, skip_self=True)
+            if b is None:
+                return ("mcall", callee.qualname, (("*", ("tuple", args)), ("**", ("dict", kws))))
+            r = self.inline(callee, b)
+            return r if r is not None else ("mcall", callee.qualname, tuple(sorted(b.items())))
+        callee = self.resolve_module_function(c)
+        if callee is not None and not (isinstance(c.func, ast.Name) and self.fi is not None and at is not None
+                                       and at.id in self.view.reach and self.rd()[at.id].get(c.func.id)):
+            b = self.bind(callee, args, kws, skip_self=False)
+            r = self.inline(callee, b) if b is not None else None
+            if r is not None:
+                return r
+            return ("call", callee.qualname, args, kws)
+        f = c.func
+        if isinstance(f, ast.Attribute):
+            ft = ev(f)
+            if ft[0] == "glob":
+                return ("call", ft[1], args, kws)
+            return _fold_meth(ev(f.value), f.attr, args, kws)
+        ft = ev(f)
+        if ft[0] == "glob":
+            if ft[1] in ("str",) and len(args) == 1 and not kws:
+                return args[0]
+            return ("call", ft[1], args, kws)
+        return ("callx", ft, args, kws)
+
+
+def _stringy(t):
+    return is_lit(t, str) or t[0] in ("cat", "fmt") or (t[0] == "call" and t[1] in ("pprint.pformat", "repr")) \
+        or (t[0] == "meth" and t[2] in _STR_PURE + ("join", "format"))
+
+
+def _printf(fmt, args):
+    """'..%s..%20d' % args as a concatenation; None when the format uses something this does not model"""
+    d = printf_directives(fmt)
+    ds = d["directives"]
+    if "%(" in fmt or len(ds) != len(args) or any(x["suppress"] for x in ds):
+        return None
+    out, pos = [], 0
+    for x, a in zip(ds, args):
+        out.append(lit(fmt[pos:x["start"]].replace("%%", "%")))
+        spec = x["text"][1:]
+        out.append(a if spec in ("s",) else ("fmt", spec.replace("l", "").replace("h", ""), a))
+        pos = x["end"]
+    out.append(lit(fmt[pos:].replace("%%", "%")))
+    return mkcat(out)
+
+
+def _strformat(fmt, args, kws):
+    out, auto = [], 0
+    try:
+        parsed = list(_string.Formatter().parse(fmt))
+    except ValueError:
+        return None
+    kw = dict(kws)
+    for text, field, spec, conv in parsed:
+        out.append(lit(text))
+        if field is None:
+            continue
+        if field == "":
+            idx, auto = auto, auto + 1
+            if idx >= len(args):
+                return None
+            a = args[idx]
+        elif field.isdigit():
+            if int(field) >= len(args):
+                return None
+            a = args[int(field)]
+        elif field in kw:
+            a = kw[field]
+        else:
+            return None
+        if "{" in (spec or ""):
+            return None
+        a = a if conv in (None, "s") else ("fmt", "!" + conv, a)
+        out.append(a if not spec else ("fmt", spec, a))
+    return mkcat(out)
+
+
+def _fold_meth(base, name, args, kws):
+    if is_lit(base, str):
+        if name == "join" and len(args) == 1 and args[0][0] in ("list", "tuple") and not any(x[0] == "star" for x in args[0][1]):
+            ps = []
+            for i, x in enumerate(args[0][1]):
+                if i:
+                    ps.append(base)
+                ps.append(x)
+            return mkcat(ps)
+        if name == "format":
+            t = _strformat(base[1], args, kws)
+            if t is not None:
+                return t
+        if name in _STR_PURE and not args and not kws:
+            return lit(getattr(base[1], name)())
+    return ("meth", base, name, args, kws)
+
+
+# ---------------------------------------------------------------------------
+# path conditions in a canonical form: a list of (atom, truth); comparisons are reduced to Is / Eq / In / Lt atoms with
+# the negation folded into the truth value, `not` and the De Morgan cases of and/or are unfolded
+# ---------------------------------------------------------------------------
+
+def canon(ev, test, truth, at):
+    if isinstance(test, ast.UnaryOp) and isinstance(test.op, ast.Not):
+        return canon(ev, test.operand, not truth, at)
+    if isinstance(test, ast.BoolOp) and ((isinstance(test.op, ast.And) and truth) or (isinstance(test.op, ast.Or) and not truth)):
+        out = []
+        for v in test.values:
+            out.extend(canon(ev, v, truth, at))
+        return out
+    if isinstance(test, ast.Compare) and len(test.ops) == 1:
+        op = _CMPOP[type(test.ops[0])]
+        l, r = ev.ev(test.left, at), ev.ev(test.comparators[0], at)
+        return [canon_cmp(op, l, r, truth)]
+    return [(ev.ev(test, at), truth)]
+
+
+def canon_cmp(op, l, r, truth):
+    if op in ("IsNot", "NotEq", "NotIn"):
+        op, truth = {"IsNot": "Is", "NotEq": "Eq", "NotIn": "In"}[op], not truth
+    elif op == "GtE":           # a >= b  ==  not (a < b)
+        op, truth = "Lt", not truth
+    elif op == "Gt":            # a > b   ==  b < a
+        op, l, r = "Lt", r, l
+    elif op == "LtE":           # a <= b  ==  not (b < a)
+        op, l, r, truth = "Lt", r, l, not truth
+    if op in ("Is", "Eq") and (is_lit(l) and not is_lit(r) or (is_lit(l) == is_lit(r) and repr(l) > repr(r))):
+        l, r = r, l
+    return (("cmp", op, l, r), truth)
+
+
+def path_literals(ev, node):
+    """canonical literals of the branch outcomes the node is control dependent on"""
+    out = []
+    for b, lab in ev.view.controlling_branches(node):
+        if b.kind == "branch" or (b.kind == "loop" and isinstance(b.ast, ast.While)):
+            out.extend(canon(ev, b.ast.test, lab == "T", b))
+    return out
+
+
+def excluded_values(lits):
+    """{term: set of constants} for `term not in {...}` facts among the literals (x != c, x not in (..), conjunctions)"""
+    out = {}
+    for (atom, truth) in lits:
+        if atom[0] == "cmp" and not truth:
+            if atom[1] == "Eq" and is_lit(atom[3]):
+                out.setdefault(atom[2], set()).add(atom[3][1])
+            elif atom[1] == "In" and atom[3][0] in ("tuple", "list", "set") and all(is_lit(x) for x in atom[3][1]):
+                out.setdefault(atom[2], set()).update(x[1] for x in atom[3][1])
+    return out
+
+
+# ---------------------------------------------------------------------------
+# calls reachable from a function through its private helpers (methods of the same class called on self, functions of the
+# same module), each with the evaluation context of the function that contains it
+# ---------------------------------------------------------------------------
+
+def find_calls(ev, pred, follow=True, _seen=None):
+    """[(ev, cfg node, call)] for calls satisfying pred in ev's function and (follow) in helpers it calls"""
+    out = []
+    seen = _seen if _seen is not None else {ev.fi.qualname}
+    for n in ev.view.nodes():
+        for c in rules.stmts_calls(n):
+            if pred(c):
+                out.append((ev, n, c))
+            if not follow or ev.depth >= 3:
+                continue
+            callee, skip = ev.resolve_self_method(c), True
+            if callee is None:
+                callee, skip = ev.resolve_module_function(c), False
+            if callee is None or callee.qualname in seen:
+                continue
+            args, kws = ev._args(c, lambda x: ev.ev(x, n))
+            b = ev.bind(callee, args, kws, skip_self=skip)
+            seen.add(callee.qualname)
+            sub = Ev(ev.repo, callee, flags=ev.flags, binds=b if b is not None else {}, depth=ev.depth + 1, stack=ev.stack + (ev.fi.qualname,))
+            out.extend(find_calls(sub, pred, follow, seen))
+    return out
+
+
+def named(*names):
+    return lambda c: call_name(c) in names
+
+
+def kwterm(ev, n, c, name):
+    v = kwarg(c, name)
+    return None if v is None else ev.ev(v, n)
+
+
+# ---------------------------------------------------------------------------
+# constant evaluation (module-level tuples of names, comprehensions over them, str case methods)
+# ---------------------------------------------------------------------------
+
+class NotConst(Exception):
+    pass
+
+
+def const_eval(e, env, mod, depth=0):
+    if depth > 12:
+        raise NotConst()
+    ce = lambda x, en=env: const_eval(x, en, mod, depth + 1)
+    if isinstance(e, ast.Constant):
+        return e.value
+    if isinstance(e, ast.Name):
+        if e.id in env:
+            return env[e.id]
+        if mod is not None and e.id in mod.consts:
+            return const_eval(mod.consts[e.id], {}, mod, depth + 1)
+        raise NotConst()
+    if isinstance(e, (ast.Tuple, ast.List)):
+        out = []
+        for x in e.elts:
+            if isinstance(x, ast.Starred):
+                out.extend(ce(x.value))
+            else:
+                out.append(ce(x))
+        return tuple(out) if isinstance(e, ast.Tuple) else out
+    if isinstance(e, ast.Set):
+        return frozenset(ce(x) for x in e.elts)
+    if isinstance(e, ast.BinOp) and isinstance(e.op, ast.Add):
+        a, b = ce(e.left), ce(e.right)
+        if type(a) is type(b) and isinstance(a, (tuple, list, str)):
+            return a + b
+        raise NotConst()
+    if isinstance(e, ast.Call) and not e.keywords:
+        f = e.func
+        if isinstance(f, ast.Name) and f.id in ("tuple", "list", "set", "frozenset", "sorted") and f.id not in env and len(e.args) <= 1:
+            v = ce(e.args[0]) if e.args else ()
+            if isinstance(v, str) or not hasattr(v, "__iter__"):
+                raise NotConst()
+            return {"tuple": tuple, "list": list, "set": frozenset, "frozenset": frozenset, "sorted": sorted}[f.id](v)
+        if isinstance(f, ast.Attribute) and f.attr in _STR_PURE:
+            v = ce(f.value)
+            a = [ce(x) for x in e.args]
+            if isinstance(v, str) and all(isinstance(x, str) for x in a):
+                return getattr(v, f.attr)(*a)
+        raise NotConst()
+    if isinstance(e, (ast.GeneratorExp, ast.ListComp, ast.SetComp)):
+        out = []
+
+        def rec(i, en):
+            if i == len(e.generators):
+                out.append(const_eval(e.elt, en, mod, depth + 1))
+                return
+            g = e.generators[i]
+            if not isinstance(g.target, ast.Name) or g.is_async:
+                raise NotConst()
+            it = const_eval(g.iter, en, mod, depth + 1)
+            if isinstance(it, str) or not hasattr(it, "__iter__"):
+                raise NotConst()
+            for v in it:
+                en2 = dict(en, **{g.target.id: v})
+                if all(_const_truth(c, en2, mod, depth + 1) for c in g.ifs):
+                    rec(i + 1, en2)
+        rec(0, dict(env))
+        return frozenset(out) if isinstance(e, ast.SetComp) else (out if isinstance(e, ast.ListComp) else tuple(out))
+    raise NotConst()
+
+
+def _const_truth(c, env, mod, depth):
+    if isinstance(c, ast.Compare) and len(c.ops) == 1:
+        a, b = const_eval(c.left, env, mod, depth), const_eval(c.comparators[0], env, mod, depth)
+        op = c.ops[0]
+        try:
+            if isinstance(op, ast.Eq):
+                return a == b
+            if isinstance(op, ast.NotEq):
+                return a != b
+            if isinstance(op, ast.In):
+                return a in b
+            if isinstance(op, ast.NotIn):
+                return a not in b
+        except TypeError:
+            pass
+    raise NotConst()
 
 
 def run(chk):
@@ -39,262 +760,848 @@ def run(chk):
     chk.trusted = ["pprint.pformat repr-escapes string content", "clang 14 AST", "SWIG naming convention"]
     chk.floor = 40
     cfun = cfront.functions(cfront.load_tu("records"))
-    framing(chk, repo, cfun)
+    fr = framing(chk, repo, cfun)
     size_line(chk, repo, cfun)
     payload(chk, repo, cfun)
-    header_content(chk, repo)
+    header_content(chk, repo, fr)
     front_ends(chk, repo)
     row_count(chk, repo)
 
 
 # ---------------------------------------------------------------------------
-def framing(chk, repo, cfun):
+# C / C++ helpers: locals initialised once are replaced by their initialiser before an expression is compared, relational
+# tests are brought to one orientation
+# ---------------------------------------------------------------------------
+
+def cwhere(node_or_decl):
+    ln = node_or_decl.get("line") if isinstance(node_or_decl, dict) else None
+    return "%s:%s" % (W, ln) if ln else W
+
+
+def c_inits(fn):
+    """{local name: initialiser} for locals that are initialised at their declaration and never assigned again"""
+    body = cfront.body_of(fn)
+    inits, written = {}, set()
+    for x in cfront.walk(body):
+        k = x.get("kind")
+        if k == "VarDecl" and x.get("name"):
+            init = [y for y in x.get("inner", []) or [] if isinstance(y, dict) and y.get("kind")]
+            if init:
+                if x["name"] in inits:
+                    written.add(x["name"])
+                if cfront.strip(init[-1]).get("kind") == "CXXConstructExpr":
+                    written.add(x["name"])          # an object (std::string ...): it has state, it is not a name for a value
+                inits[x["name"]] = init[-1]
+        elif k in ("BinaryOperator", "CompoundAssignOperator") and (x.get("opcode") == "=" or k == "CompoundAssignOperator"):
+            l = cfront.strip(x["inner"][0])
+            if l.get("kind") == "DeclRefExpr":
+                written.add(cfront.render(l))
+        elif k == "UnaryOperator" and x.get("opcode") in ("++", "--"):
+            l = cfront.strip(x["inner"][0])
+            if l.get("kind") == "DeclRefExpr":
+                written.add(cfront.render(l))
+    return {k: v for k, v in inits.items() if k not in written}
+
+
+def c_string_consts(fn):
+    """{local name: text} for `const std::string x = "literal"` locals"""
+    out = {}
+    for x in cfront.walk(cfront.body_of(fn)):
+        if x.get("kind") == "VarDecl" and x.get("name") and "const" in (x.get("type") or {}).get("qualType", "") and "string" in (x.get("type") or {}).get("qualType", ""):
+            init = [y for y in x.get("inner", []) or [] if isinstance(y, dict) and y.get("kind")]
+            v = c_string_literal(init[-1]) if init else None
+            if v is not None:
+                out[x["name"]] = v
+    return out
+
+
+def c_subst(n, inits, depth=0):
+    """copy of an expression with references to once-initialised locals replaced by their initialiser"""
+    if not isinstance(n, dict):
+        return n
+    if n.get("kind") == "DeclRefExpr" and depth < 6:
+        rd = n.get("referencedDecl") or {}
+        if rd.get("kind") == "VarDecl" and rd.get("name") in inits:
+            return c_subst(inits[rd["name"]], inits, depth + 1)
+    out = dict(n)
+    if "inner" in n:
+        out["inner"] = [c_subst(c, inits, depth) for c in (n.get("inner") or [])]
+    return out
+
+
+def c_render(n, inits):
+    return cfront.render(c_subst(n, inits))
+
+
+_CNEG = {"==": "!=", "!=": "==", "<": ">=", ">=": "<", ">": "<=", "<=": ">"}
+_CSWAP = {"==": "==", "!=": "!=", "<": ">", ">": "<", "<=": ">=", ">=": "<="}
+
+
+def c_relation(cond, truth, inits):
+    """(lhs text, operator, rhs text) of a relational test that is taken with the given truth value, `!` unfolded"""
+    n = cfront.strip(c_subst(cond, inits))
+    while n.get("kind") == "UnaryOperator" and n.get("opcode") == "!":
+        n = cfront.strip(n["inner"][0])
+        truth = not truth
+    if n.get("kind") == "BinaryOperator" and n.get("opcode") in _CNEG:
+        op = n["opcode"] if truth else _CNEG[n["opcode"]]
+        return cfront.render(n["inner"][0]), op, cfront.render(n["inner"][1])
+    return None
+
+
+def c_controls(ccfg, node, inits):
+    """relations the node is control dependent on"""
+    out = []
+    for b, lab in ccfg.view().controlling_branches(node):
+        if b.c is None or lab not in ("T", "F"):
+            continue
+        r = c_relation(b.c, lab == "T", inits)
+        out.append(r if r is not None else (cfront.render(b.c), "T" if lab == "T" else "F", None))
+    return out
+
+
+def holds(rels, lhs, op, rhs):
+    """is `lhs op rhs` one of the relations (either orientation)"""
+    return any((l, o, r) == (lhs, op, rhs) or (r, _CSWAP.get(o), l) == (lhs, op, rhs) for l, o, r in rels if r is not None)
+
+
+def reader_model(rd):
+    """What the C++ header reader does with the byte stream, in either of the two recognised idioms:
+       (a) a fixed window shifted by one byte per fgetc and compared with strncmp/memcmp against a literal, a byte counter,
+           `count += K` after the loop and one fread of count bytes from the start;
+       (b) the bytes appended to a std::string whose tail is compared with std::string::compare against a string constant,
+           K further fgetc's appended after the loop.
+    Returns dict(S=sentinel, width=bytes compared, K=bytes taken after the match, window=(ok, text), textvar=name of the
+    string returned, line=...) or raises AnalysisError."""
+    body = cfront.body_of(rd)
+    inits = c_inits(rd)
+    loops = [x for x in cfront.walk(body) if x.get("kind") in ("WhileStmt", "DoStmt", "ForStmt")]
+    scan = [l for l in loops if any(cfront.callee_name(c) == "fgetc" for c in cfront.calls_in(l))]
+    if len(scan) != 1:
+        raise AnalysisError("the byte scanning loop (one loop calling fgetc) not found in read_sfile_header")
+    loop = scan[0]
+    inloop = {id(x) for x in cfront.walk(loop)}
+    ngetc = len([c for c in cfront.calls_in(loop) if cfront.callee_name(c) == "fgetc"])
+    if ngetc != 1:
+        raise AnalysisError("the scanning loop of read_sfile_header does not read exactly one byte per iteration")
+    cmpc = [c for c in cfront.calls_in(loop) if cfront.callee_name(c) in ("strncmp", "memcmp")]
+    cmps = [c for c in cfront.walk(loop) if c.get("kind") == "CXXMemberCallExpr" and cfront.callee_name(c) == "compare"]
+    if len(cmpc) == 1 and not cmps:
+        args = cfront.call_args(cmpc[0])
+        S = c_string_literal(args[1])
+        buf = cfront.render(args[0])
+        if S is None:
+            S, buf = c_string_literal(args[0]), cfront.render(args[1])
+        wtxt = c_render(args[2], inits)
+        if not wtxt.isdigit():
+            raise AnalysisError("comparison width %s in read_sfile_header is not a constant" % wtxt)
+        width = int(wtxt)
+        shifts = [cfront.render(x) for x in cfront.walk(loop) if x.get("kind") == "BinaryOperator" and x.get("opcode") == "=" and cfront.render(x["inner"][0]).startswith(buf + "[")]
+        byte = [k for k, v in inits.items() if cfront.callee_name(cfront.strip(v)) == "fgetc"]
+        want = ["(%s[%d] = %s[%d])" % (buf, i, buf, i + 1) for i in range(width - 1)] + ["(%s[%d] = %s)" % (buf, width - 1, byte[0] if byte else "c")]
+        # bytes counted after the loop
+        skips = []
+        cnt = None
+        for x in cfront.walk(body):
+            if id(x) in inloop:
+                continue
+            if x.get("kind") == "CompoundAssignOperator" and x.get("opcode") == "+=":
+                skips.append((cfront.render(x["inner"][0]), cfront.render(x["inner"][1])))
+            elif x.get("kind") == "UnaryOperator" and x.get("opcode") == "++":
+                skips.append((cfront.render(x["inner"][0]), "1"))
+        incs = [cfront.render(x["inner"][0]) for x in cfront.walk(loop) if x.get("kind") == "UnaryOperator" and x.get("opcode") == "++"] + \
+               [cfront.render(x["inner"][0]) for x in cfront.walk(loop) if x.get("kind") == "CompoundAssignOperator" and x.get("opcode") == "+=" and cfront.render(x["inner"][1]) == "1"]
+        if len(incs) == 1:
+            cnt = incs[0]
+        mine = [v for nm, v in skips if nm == cnt]
+        K = sum(int(v) for v in mine) if mine and all(v.isdigit() for v in mine) else None
+        fr = [cfront.render(c) for c in cfront.calls_in(body) if id(c) not in inloop and cfront.callee_name(c) == "fread"]
+        reread = len(fr) == 1 and cnt is not None and ", 1, %s, " % cnt in fr[0]
+        if not reread:
+            K = None
+        return dict(S=S, width=width, K=K, window=(shifts == want, str(shifts)), idiom="shifted window + strncmp", line=cmpc[0].get("line"))
+    if len(cmps) == 1 and not cmpc:
+        c = cmps[0]
+        base = cfront.render(cfront.strip(c["inner"][0])["inner"][0])
+        args = cfront.call_args(c)
+        if len(args) != 3:
+            raise AnalysisError("std::string::compare in read_sfile_header is not the (pos, len, str) form")
+        sname = cfront.render(args[2])
+        S = c_string_literal(args[2])
+        if S is None:
+            S = c_string_consts(rd).get(sname)
+        ltxt = c_render(args[1], inits)
+        if ltxt.isdigit():
+            width = int(ltxt)
+        elif ltxt in ("%s.size()" % sname, "%s.length()" % sname) and S is not None:
+            width = len(S)
+        else:
+            raise AnalysisError("compared length %s in read_sfile_header not understood" % ltxt)
+        ptxt = c_render(args[0], inits)
+        tail = ptxt in ("(%s.size() - %s)" % (base, ltxt), "(%s.length() - %s)" % (base, ltxt), "(%s.size() - %d)" % (base, width))
+        # every byte read in the loop is appended to the text exactly once, before the comparison
+        byte = [k for k, v in inits.items() if cfront.callee_name(cfront.strip(v)) == "fgetc"]
+        app = [x for x in cfront.walk(loop) if x.get("kind") == "CXXMemberCallExpr" and cfront.callee_name(x) == "push_back"
+               and cfront.render(cfront.strip(x["inner"][0])["inner"][0]) == base]
+        appended = len(app) == 1 and len(byte) >= 1 and cfront.render(app[0]["inner"][1]) in byte
+        after = [x for x in cfront.walk(body) if id(x) not in inloop]
+        post_getc = [x for x in after if x.get("kind") == "CallExpr" and cfront.callee_name(x) == "fgetc"]
+        post_app = [x for x in after if x.get("kind") == "CXXMemberCallExpr" and cfront.callee_name(x) == "push_back"
+                    and cfront.render(cfront.strip(x["inner"][0])["inner"][0]) == base]
+        other = [cfront.callee_name(x) for x in after if x.get("kind") == "CallExpr" and cfront.callee_name(x) in ("fread", "fgets", "fseek", "fscanf", "getc", "ungetc")]
+        post_ok = all(c_render(x["inner"][1], inits).startswith("fgetc(") for x in post_app)
+        K = len(post_getc) if len(post_getc) == len(post_app) and post_ok and not other else None
+        return dict(S=S, width=width, K=K, window=(bool(tail and appended), "%s.compare(%s, %s, %s)" % (base, ptxt, ltxt, sname)),
+                    idiom="accumulated text + std::string::compare on its tail", line=c.get("line"))
+    raise AnalysisError("sentinel comparison (strncmp/memcmp on a window, or std::string::compare on the tail) not found in read_sfile_header")
+
+
+# ---------------------------------------------------------------------------
+def header_text(chk, repo):
+    """the text handed to the C++ header writer on the first write, evaluated: (ev, node, call, term) or None"""
     wh = repo.func("esutil.sfile.SFile._write_header")
     chk.analysed_unit(wh.qualname)
-    # abstract evaluation of the joined line list
-    lists = [a for a in walk_no_nested(wh.node) if isinstance(a, ast.Assign) and isinstance(a.value, ast.List)]
-    joins = [a for a in walk_no_nested(wh.node) if isinstance(a, ast.Assign) and isinstance(a.value, ast.Call) and call_name(a.value) == "join"]
-    ok = len(lists) == 1 and len(joins) == 1 and norm(joins[0].value.args[0]) == norm(lists[0].targets[0]) and isinstance(joins[0].value.func.value, ast.Constant)
-    chk.ob("R01.1", "writer::header-is-joined-line-list", ok, wh.where(), "the header text is sep.join([...]) of a literal list")
-    if not ok:
-        return
-    sep = joins[0].value.func.value.value
-    elts = lists[0].value.elts
-    # which element is the dict text: the one bound to pformat
-    env = {norm(a.targets[0]): a.value for a in walk_no_nested(wh.node) if isinstance(a, ast.Assign)}
-    di = [i for i, e in enumerate(elts) if isinstance(e, ast.Name) and isinstance(env.get(e.id), ast.Call) and call_name(env[e.id]) == "pformat"]
-    si = [i for i, e in enumerate(elts) if isinstance(e, ast.Name) and isinstance(env.get(e.id), ast.Call) and call_name(env[e.id]) == "_get_size_string"]
-    chk.ob("R01.1", "writer::size-line-first-dict-second", si == [0] and di == [1], wh.where(), "line 0 is the SIZE line, then the pretty-printed dict")
-    if di != [1]:
-        return
-    tail = elts[di[0] + 1:]
-    if not all(isinstance(e, ast.Constant) and isinstance(e.value, str) for e in tail):
-        raise AnalysisError("trailer pieces of the header are not string literals")
-    T_w = "".join(sep + e.value for e in tail)
+    sites = find_calls(Ev(repo, wh), named("write_header_and_update_offset"))
+    return wh, [(e, n, c, e.ev(c.args[0], n) if c.args else None) for e, n, c in sites]
+
+
+def line_source(t):
+    """t is `X.split(sep)` or `X.partition(sep)[2].split(sep)` (the lines of X, the first `skip` of them dropped):
+    (X, sep, skip) or None"""
+    if t[0] == "meth" and t[2] == "split" and len(t[3]) == 1 and is_lit(t[3][0], str) and not t[4]:
+        sep, x = t[3][0][1], t[1]
+        if x[0] == "sub" and x[2] == lit(2) and x[1][0] == "meth" and x[1][2] == "partition" and x[1][3] == (lit(sep),):
+            return x[1][1], sep, 1
+        if x[0] == "sub" and x[2] == lit(1) and x[1][0] == "meth" and x[1][2] == "split" and x[1][3] == (lit(sep), lit(1)):
+            return x[1][1], sep, 1
+        return x, sep, 0
+    return None
+
+
+def line_slice(t):
+    """t selects lines lo .. (n - drop) of the text X split on sep: (X, sep, lo, drop) or None"""
+    if t[0] != "slice" or t[4] != NONE:
+        return None
+    src = line_source(t[1])
+    if src is None:
+        return None
+    x, sep, skip = src
+    lo, hi = t[2], t[3]
+    if lo == NONE:
+        lo = lit(0)
+    if not is_lit(lo, int) or lo[1] < 0:
+        return None
+    if hi == NONE:
+        drop = 0
+    elif is_lit(hi, int) and hi[1] < 0:
+        drop = -hi[1]
+    elif hi[0] == "op" and hi[1] == "-" and hi[2] == ("call", "len", (t[1],), ()) and is_lit(hi[3], int):
+        drop = hi[3][1]
+    else:
+        return None
+    return x, sep, skip + lo[1], drop
+
+
+def first_line(t):
+    """t is the first line of X: (X, sep) or None"""
+    if t[0] == "sub" and t[2] == lit(0) and t[1][0] == "meth" and len(t[1][3]) >= 1 and is_lit(t[1][3][0], str):
+        if t[1][2] in ("split", "partition"):
+            return t[1][1], t[1][3][0][1]
+    return None
+
+
+def framing(chk, repo, cfun):
+    fr = {}
+    wh, sites = header_text(chk, repo)
+    R = "R01.1"
+    if len(sites) != 1 or sites[0][3] is None:
+        chk.ob(R, "writer::whole-text-written-once", None, wh.where(), "exactly one call of write_header_and_update_offset is reachable from _write_header (found %d)" % len(sites))
+        return fr
+    e, n, c, text = sites[0]
+    chk.ob(R, "writer::whole-text-written-once", True, e.fi.where(c), "the header is handed to the C++ writer by one call; its argument evaluates to %s" % show(text))
+    ps = pieces(text)
+    known = all(is_lit(p, str) or p[0] == "fmt" or (p[0] == "call" and p[1] == "pprint.pformat") for p in ps)
+    di = [i for i, p in enumerate(ps) if p[0] == "call" and p[1] == "pprint.pformat"]
+    if not known or len(di) != 1:
+        # the text is not a concatenation of literals, formatted numbers and one pformat: nothing can be said about the framing
+        chk.ob(R, "writer::header-is-joined-line-list", None, e.fi.where(c), "the header text does not evaluate to literal pieces around one pprint.pformat(...): %s" % show(text))
+        return fr
+    pre, post = ps[:di[0]], ps[di[0] + 1:]
+    flat = lambda seq: "".join(p[1] if is_lit(p, str) else "\x00%s\x00" % p[1] for p in seq)     # formatted numbers as \0spec\0
+    if not all(is_lit(p, str) for p in post):
+        chk.ob(R, "writer::header-is-joined-line-list", None, e.fi.where(c), "what follows the pretty-printed dict is not literal text: %s" % show(text))
+        return fr
+    head = flat(pre)
+    T_w = "".join(p[1] for p in post)
+    sep = "\r\n" if head.endswith("\r\n") else ("\n" if head.endswith("\n") else "")
+    joined = bool(sep) and T_w.startswith(sep)
+    chk.ob(R, "writer::header-is-joined-line-list", joined, e.fi.where(c),
+           "the header text is <first line> + sep + pprint.pformat(dict) + sep + literal trailer, sep a line separator (evaluated: %s)" % show(text))
+    if not joined:
+        return fr
+    fr.update(text=text, dict_arg=ps[di[0]][2][0] if ps[di[0]][2] else None, where=e.fi.where(c), sep=sep)
+    # line 0 is what _get_size_string produces
+    gs = repo.func("esutil.sfile.SFile._get_size_string")
+    gev = Ev(repo, gs)
+    grets = [x for x in gev.view.nodes() if x.kind == "return"]
+    gterm = gev.ev(grets[0].ast.value, grets[0]) if len(grets) == 1 and grets[0].ast.value is not None else None
+    gknown = gterm is not None and all(is_lit(p, str) or p[0] == "fmt" for p in pieces(gterm))
+    line0 = head[:-len(sep)]
+    first_ok = None if not gknown else (flat(pieces(gterm)) == line0 and sep not in line0)
+    chk.ob(R, "writer::size-line-first-dict-second", first_ok, e.fi.where(c), "line 0 is the SIZE line (%s), then the pretty-printed dict" % (show(gterm) if gterm is not None else "?"))
     chk.notes["writer_trailer"] = repr(T_w)
-    wcall = [c for c in walk_no_nested(wh.node) if isinstance(c, ast.Call) and call_name(c) == "write_header_and_update_offset"]
-    chk.ob("R01.1", "writer::whole-text-written-once", len(wcall) == 1 and norm(wcall[0].args[0]) == norm(joins[0].targets[0]), wh.where(), "the joined text is what is written")
     # C++ reader constants
     rd = cfun.get("Records::read_sfile_header")
     if rd is None:
         raise AnalysisError("C++ anchor Records::read_sfile_header missing")
     chk.analysed_unit("Records::read_sfile_header")
-    cmpc = [c for c in cfront.calls_in(cfront.body_of(rd)) if cfront.callee_name(c) in ("strncmp", "memcmp")]
-    if len(cmpc) != 1:
-        raise AnalysisError("sentinel comparison (strncmp/memcmp) not found in read_sfile_header")
-    args = cfront.call_args(cmpc[0])
-    S = c_string_literal(args[1])
-    width = int(cfront.render(args[2]))
-    skips = [cfront.render(x["inner"][1]) for x in cfront.walk(cfront.body_of(rd)) if x.get("kind") == "CompoundAssignOperator" and x.get("opcode") == "+=" and cfront.render(x["inner"][0]) == "count"]
-    K = int(skips[0]) if len(skips) == 1 and skips[0].isdigit() else None
-    chk.notes["reader_sentinel"] = {"literal": repr(S), "compared_bytes": width, "skip_after": K}
-    chk.ob("R01.1", "reader::constants-found", S is not None and K is not None, W, "sentinel %r compared over %d bytes, then %s more bytes belong to the header" % (S, width, K))
+    m = reader_model(rd)
+    S, width, K = m["S"], m["width"], m["K"]
+    chk.notes["reader_sentinel"] = {"literal": repr(S), "compared_bytes": width, "skip_after": K, "idiom": m["idiom"]}
+    chk.ob(R, "reader::constants-found", None if (S is None or K is None) else True, W, "sentinel %r compared over %d bytes, then %s more bytes belong to the header (%s)" % (S, width, K, m["idiom"]))
     if S is None or K is None:
-        return
-    chk.ob("R01.1", "reader::compares-whole-sentinel", width == len(S), W, "the comparison covers the whole sentinel literal (%d of %d bytes)" % (width, len(S)))
-    # the sliding window holds `width` bytes: width-1 shifts + 1 store of the new byte
-    shifts = [cfront.render(x) for x in cfront.walk(cfront.body_of(rd)) if x.get("kind") == "BinaryOperator" and x.get("opcode") == "=" and cfront.render(x["inner"][0]).startswith("endbuff[")]
-    want = ["(endbuff[%d] = endbuff[%d])" % (i, i + 1) for i in range(width - 1)] + ["(endbuff[%d] = c)" % (width - 1)]
-    chk.ob("R01.1", "reader::window-slides-by-one-byte", shifts == want, W, "the %d-byte window is shifted by one and the new byte appended (%s)" % (width, shifts))
+        return fr
+    chk.ob(R, "reader::compares-whole-sentinel", width == len(S), W, "the comparison covers the whole sentinel literal (%d of %d bytes)" % (width, len(S)))
+    # the window compared holds the last `width` bytes read
+    chk.ob(R, "reader::window-slides-by-one-byte", m["window"][0], W, "the %d bytes compared are the last %d bytes read, advancing one byte per iteration (%s)" % (width, width, m["window"][1]))
     pos = T_w.find(S)
     ok = pos >= 0 and len(T_w) - (pos + len(S)) == K
-    chk.ob("R01.1", "framing::reader-stops-exactly-at-end-of-trailer", ok, W,
+    chk.ob(R, "framing::reader-stops-exactly-at-end-of-trailer", ok, W,
            "writer trailer %r = (context %r) + sentinel %r + %d bytes: the data offset returned by the reader equals the length of the header written" % (T_w, T_w[:max(pos, 0)], S, K))
     anchored = S.startswith("\n") and S.endswith("\n") and S.strip("\n") == "END"
-    chk.ob("R01.1", "framing::sentinel-anchored-on-line-boundaries", anchored, W,
+    chk.ob(R, "framing::sentinel-anchored-on-line-boundaries", anchored, W,
            "the sentinel must be a whole line (%r): pprint output never contains a line consisting of END alone because all string content is repr-escaped, "
            "whereas the bare letters END occur inside user keys/values/field names (e.g. 'WEEKEND', field TREND), which the property's quantifier includes; "
            "found %r, so the reader stops at the first END anywhere in the header" % ("\nEND\n", S))
     # python parser drops exactly the trailer pieces
     rh = repo.func("esutil.sfile.SFile.read_header")
     chk.analysed_unit(rh.qualname)
-    sl = [a for a in walk_no_nested(rh.node) if isinstance(a, ast.Assign) and isinstance(a.value, ast.Subscript) and isinstance(a.value.slice, ast.Slice) and norm(a.value.value) == "lines"]
-    ntrail = T_w.count(sep) if sep == "\n" else None
-    ok = len(sl) == 1 and norm(sl[0].value.slice.lower) == "1" and norm(sl[0].value.slice.upper).replace(" ", "") == "len(lines)-%d" % ntrail
-    chk.ob("R01.1", "parser::drops-size-line-and-trailer-lines", ok, rh.where(), "the dict text is lines[1 : len(lines)-%s]: the SIZE line and the %s trailing pieces produced by splitting the trailer are dropped (found %s)" % (ntrail, ntrail, norm(sl[0].value) if sl else None))
-    spl = [norm(a.value) for a in walk_no_nested(rh.node) if isinstance(a, ast.Assign) and norm(a.targets[0]) == "lines"]
-    chk.ob("R01.1", "parser::splits-on-writer-separator", spl == ["hdrstring.split(%r)" % sep], rh.where(), "the header text is split on the writer's separator")
-    off = [norm(a) for a in walk_no_nested(rh.node) if isinstance(a, ast.Assign) and norm(a.targets[0]) in ("self._data_start", "(hdrstring, offset)")]
-    chk.ob("R01.1", "parser::data-offset-kept", "self._data_start = offset" in off and any(o.replace("(", "").replace(")", "") == "hdrstring, offset = robj.robj.read_sfile_header" for o in off), rh.where(), "the offset returned by the C++ reader becomes the data start")
+    rev = Ev(repo, rh)
+    ntrail = T_w.count(sep)
+    rrets = [x for x in rev.view.nodes() if x.kind == "return" and x.ast.value is not None]
+    hterm = rev.ev(rrets[0].ast.value, rrets[0]) if len(rrets) == 1 else None
+    fr["read_header_value"] = hterm
+    sl = [x for x in subterms(hterm) if x and x[0] == "slice"] if hterm is not None else []
+    sel = line_slice(sl[0]) if len(sl) == 1 else None
+    call_rd = lambda t: t is not None and t[0] == "sub" and t[1][0] == "meth" and t[1][2] == "read_sfile_header"
+    if sel is None:
+        chk.ob(R, "parser::drops-size-line-and-trailer-lines", None, rh.where(), "the line selection evaluated by read_header is not recognised (%s)" % (show(hterm) if hterm is not None else None))
+    else:
+        X, psep, lo, drop = sel
+        chk.ob(R, "parser::drops-size-line-and-trailer-lines", lo == 1 and drop == ntrail and call_rd(X) and X[2] == lit(0), rh.where(),
+               "the dict text is lines[1 : len(lines)-%s] of the text returned by the C++ reader: the SIZE line and the %s trailing pieces produced by splitting the trailer are dropped (found lines[%s : len-%s])" % (ntrail, ntrail, lo, drop))
+        chk.ob(R, "parser::splits-on-writer-separator", psep == sep, rh.where(), "the header text is split on the writer's separator (%r vs %r)" % (psep, sep))
+    offs = rev.attr_defs().get("self._data_start", [])
+    offt = [rev.ev(v, nn) if v is not None else None for nn, v in offs]
+    chk.ob(R, "parser::data-offset-kept", (len(offt) == 1 and call_rd(offt[0]) and offt[0][2] == lit(1)) if offt and None not in offt else None, rh.where(),
+           "the offset returned by the C++ reader becomes the data start (%s)" % [show(t) if t else None for t in offt])
     so = repo.func("esutil.sfile.SFile.open")
-    offs = [norm(kwarg(c, "offset")) for c in walk_no_nested(so.node) if isinstance(c, ast.Call) and call_name(c) == "Recfile" and kwarg(c, "offset") is not None]
-    chk.ob("R01.1", "SFile.open::reader-starts-at-data-offset", offs == ["self._data_start"], so.where(), "the record reader is opened at the data start")
-    rets = [cfront.render(x) for x in cfront.walk(cfront.body_of(rd)) if x.get("kind") == "ReturnStmt"]
-    chk.ob("R01.1", "reader::returns-text-and-position", any("ftell(mFptr)" in r and "hdr.c_str()" in r for r in rets), W, "the reader returns the header text and the file position after it")
+    offs = [ee.ev(kwarg(cc, "offset"), nn) for ee, nn, cc in find_calls(Ev(repo, so), named("Recfile")) if kwarg(cc, "offset") is not None]
+    chk.ob(R, "SFile.open::reader-starts-at-data-offset", all(o == ("attr", SELF, "_data_start") for o in offs) if offs else None, so.where(), "the record reader is opened at the data start (%s)" % [show(t) for t in offs])
+    inits = c_inits(rd)
+    rets = [x for x in cfront.walk(cfront.body_of(rd)) if x.get("kind") == "ReturnStmt"]
+    good = []
+    for r in rets:
+        bv = [cc for cc in cfront.calls_in(c_subst(r, inits)) if cfront.callee_name(cc) == "Py_BuildValue"]
+        if len(bv) != 1:
+            good.append(None)           # the value is built in a way this rule does not know
+            continue
+        a = cfront.call_args(bv[0])
+        fmt = c_string_literal(a[0]) or ""
+        good.append(len(a) == 3 and fmt[:1] == "s" and len(fmt) == 2 and c_render(a[1], inits).endswith(".c_str()") and c_render(a[2], inits) == "ftell(mFptr)")
+    chk.ob(R, "reader::returns-text-and-position", None if (not good or None in good) else all(good), W, "the reader returns the header text (decoded as UTF-8, the encoding it was written in) and the file position after it (%s)" % [c_render(r, inits) for r in rets])
+    return fr
+
+
+def _returns(ev):
+    return [n for n in ev.view.nodes() if n.kind == "return"]
+
+
+def _return_terms(ev):
+    return [ev.ev(n.ast.value, n) if n.ast.value is not None else NONE for n in _returns(ev)]
+
+
+def _peel(t, methods):
+    """strip argument-less str method calls off a term: (core, [method names])"""
+    seen = []
+    while t[0] == "meth" and t[2] in methods and not t[3] and not t[4]:
+        seen.append(t[2])
+        t = t[1]
+    return t, seen
 
 
 def size_line(chk, repo, cfun):
+    R = "R01.2"
     ex = repo.func("esutil.sfile.SFile._extract_size_from_string")
     chk.analysed_unit(ex.qualname)
-    cfg = cfg_of(ex)
-    tests = {t for n in rules.raise_nodes(cfg) for t, lab in rules.controlling_tests(cfg.view(), n)[:1] if lab == "T"}
-    chk.ob("R01.2", "size-parser::one-equals-sign", "len(lsplit) != 2" in tests, ex.where(), "the SIZE line must split into exactly name and value")
-    chk.ob("R01.2", "size-parser::name-accepted", "fname.upper() != 'SIZE' and fname.upper() != 'NROWS'" in tests, ex.where(), "the name SIZE (or legacy NROWS) is required")
-    val = [norm(a.value) for a in walk_no_nested(ex.node) if isinstance(a, ast.Assign) and norm(a.targets[0]) == "size"]
-    chk.ob("R01.2", "size-parser::value", val == ["eval(lsplit[1])"], ex.where(), "the row count is the evaluated right-hand side (blank padding tolerated)")
+    ev = Ev(repo, ex)
+    line = ("param", ex.params[1]) if len(ex.params) > 1 else None
+    parts = ("meth", line, "split", (lit("="),), ())
+    rlits = [path_literals(ev, n) for n in ev.view.nodes() if n.kind == "raise"]
+    two = (("cmp", "Eq", ("call", "len", (parts,), ()), lit(2)), False)
+    chk.ob(R, "size-parser::one-equals-sign", any(two in L for L in rlits), ex.where(), "the SIZE line must split into exactly name and value: a raise is control dependent on len(line.split('=')) != 2")
+    names = []
+    for L in rlits:
+        for x, vals in excluded_values(L).items():
+            core, seen = _peel(x, ("strip", "upper"))
+            if core == ("sub", parts, lit(0)) and "strip" in seen and "upper" in seen:
+                names.append(vals)
+    chk.ob(R, "size-parser::name-accepted", {"SIZE", "NROWS"} in names, ex.where(), "the name SIZE (or legacy NROWS), stripped and upper-cased, is required: every other name raises (%s)" % names)
+    vals = _return_terms(ev)
+    chk.ob(R, "size-parser::value", bool(vals) and all(v == ("call", "eval", (("sub", parts, lit(1)),), ()) for v in vals), ex.where(),
+           "the row count is the evaluated right-hand side (blank padding tolerated) (%s)" % [show(v) for v in vals])
     gs = repo.func("esutil.sfile.SFile._get_size_string")
-    fmts = [x.left.value for x in ast.walk(gs.node) if isinstance(x, ast.BinOp) and isinstance(x.op, ast.Mod) and isinstance(x.left, ast.Constant)]
-    okw = len(fmts) == 1 and fmts[0].count("=") == 1 and fmts[0].split("=")[0].strip() == "SIZE"
-    chk.ob("R01.2", "size-writer::name-and-single-equals", okw, gs.where(), "the writer's SIZE line has the accepted name and one '=' (%s)" % fmts)
+    gt = _return_terms(Ev(repo, gs))
+    okw = False
+    if len(gt) == 1:
+        ps = pieces(gt[0])
+        L = "".join(p[1] for p in ps if is_lit(p, str))
+        nf = [p for p in ps if not is_lit(p, str)]
+        okw = L.count("=") == 1 and L.split("=")[0].strip() == "SIZE" and len(nf) == 1 and nf[0][0] == "fmt" and ps.index(nf[0]) > 0
+    chk.ob(R, "size-writer::name-and-single-equals", okw, gs.where(), "the writer's SIZE line has the accepted name and one '=' (%s)" % [show(t) for t in gt])
     rh = repo.func("esutil.sfile.SFile.read_header")
-    st = [norm(a) for a in walk_no_nested(rh.node) if isinstance(a, ast.Assign)]
-    chk.ob("R01.2", "parser::size-from-first-line", "size = self._extract_size_from_string(lines[0])" in st and "hdr['_SIZE'] = size" in st, rh.where(), "_SIZE in the header read back is the count of the SIZE line")
+    rev = Ev(repo, rh)
+    retnames = {n.ast.value.id for n in _returns(rev) if isinstance(n.ast.value, ast.Name)}
+    stores = [(n, n.ast.value) for n in rev.view.nodes() if n.kind == "stmt" and isinstance(n.ast, ast.Assign) and len(n.ast.targets) == 1
+              and isinstance(n.ast.targets[0], ast.Subscript) and isinstance(n.ast.targets[0].value, ast.Name) and n.ast.targets[0].value.id in retnames
+              and isinstance(n.ast.targets[0].slice, ast.Constant) and n.ast.targets[0].slice.value == "_SIZE"]
+    ok = False
+    found = []
+    for n, v in stores:
+        t = rev.ev(v, n)
+        found.append(show(t))
+        if t[0] == "mcall" and t[1] == ex.qualname and len(t[2]) == 1:
+            fl = first_line(t[2][0][1])
+            ok = fl is not None and fl[0][0] == "sub" and fl[0][2] == lit(0) and fl[0][1][0] == "meth" and fl[0][1][2] == "read_sfile_header"
+    chk.ob(R, "parser::size-from-first-line", ok and len(stores) == 1, rh.where(), "_SIZE in the header read back is the count of the SIZE line: hdr['_SIZE'] = _extract_size_from_string(<first line of the text read>) (%s)" % found)
     so = repo.func("esutil.sfile.SFile.open")
-    nr = [norm(kwarg(c, "nrows")) for c in walk_no_nested(so.node) if isinstance(c, ast.Call) and call_name(c) == "Recfile" and kwarg(c, "nrows") is not None]
+    nr = [e.ev(kwarg(c, "nrows"), n) for e, n, c in find_calls(Ev(repo, so), named("Recfile")) if kwarg(c, "nrows") is not None]
     gn = repo.func("esutil.sfile.SFile.get_nrows")
-    rets = [norm(x.value) for x in walk_no_nested(gn.node) if isinstance(x, ast.Return)]
-    chk.ob("R01.2", "SFile.open::row-count-from-header", nr == ["self.get_nrows()"] and rets == ["self._hdr['_SIZE']"], so.where(), "the reader is told the stored row count")
+    stored = ("sub", ("attr", SELF, "_hdr"), lit("_SIZE"))
+    rets = _return_terms(Ev(repo, gn))
+    okn = len(nr) == 1 and (nr[0] == stored or (nr[0] == ("mcall", gn.qualname, ()) and bool(rets) and all(r == stored for r in rets)))
+    chk.ob(R, "SFile.open::row-count-from-header", okn, so.where(), "the reader is told the stored row count (nrows=%s)" % [show(t) for t in nr])
+
+
+BINARY = {"self.is_ascii": False, "self.delim": None}
 
 
 def payload(chk, repo, cfun):
+    R = "R01.3"
     eng = effects.Effects(repo, c_summaries())
     fi = repo.func("esutil.recfile.Util.Recfile.write")
     chk.analysed_unit(fi.qualname)
-    cfg = cfg_of(fi)
-    v = cfg.specialise(flags={"self.is_ascii": False})
+    bev = Ev(repo, fi, flags=BINARY)
     # binary path: what reaches Records::Write is a view of the caller's array and nothing converts it
-    calls = [(n, c) for n in v.nodes() for c in rules.stmts_calls(n)]
-    names = [call_name(c) for n, c in calls]
-    chk.ob("R01.3", "Recfile.write[binary]::no-conversion", not any(nm in ("to_native_inplace", "to_native", "byteswap", "astype", "copy") for nm in names), fi.where(),
+    calls = find_calls(bev, lambda c: True)
+    names = [call_name(c) for e, n, c in calls]
+    chk.ob(R, "Recfile.write[binary]::no-conversion", not any(nm in ("to_native_inplace", "to_native", "byteswap", "astype", "copy", "newbyteorder") for nm in names), fi.where(),
            "on the binary path nothing converts or copies the data (calls: %s)" % names)
     import checks.C15 as C15
     an = effects._Analyse(eng, fi, {"self.is_ascii": False})
     init = {p: {("P", p, "same", p == "data")} for p in an.params}
     C15._run_with_init(an, init)
-    wcalls = [c for n, c in calls if call_name(c) == "Write"]
-    ok = False
-    if len(wcalls) == 1:
-        # provenance of the argument: view of data
-        arg = wcalls[0].args[0]
-        defs = [a for a in walk_no_nested(fi.node) if isinstance(a, ast.Assign) and norm(a.targets[0]) == norm(arg)]
-        ok = any(norm(a.value) in ("data.view(numpy.ndarray)", "data") for a in defs)
-    chk.ob("R01.3", "Recfile.write[binary]::writes-view-of-callers-array", ok, fi.where(), "Records::Write receives data.view(ndarray): the caller's bytes, dtype and byte order as they are")
+    data = ("param", fi.params[1]) if len(fi.params) > 1 else None
+    wargs = [e.ev(c.args[0], n) for e, n, c in calls if call_name(c) == "Write" and c.args]
+    ok = None if len(wargs) != 1 else wargs[0] in (data, ("meth", data, "view", (("glob", "numpy.ndarray"),), ()))
+    chk.ob(R, "Recfile.write[binary]::writes-view-of-callers-array", ok, fi.where(), "Records::Write receives data.view(ndarray): the caller's bytes, dtype and byte order as they are (%s)" % [show(t) for t in wargs])
     # C++ Write
     w = cfun["Records::Write"]
     chk.analysed_unit("Records::Write")
-    asg = {cfront.render(x["inner"][0]): cfront.render(x["inner"][1]) for x in cfront.walk(cfront.body_of(w)) if x.get("kind") == "BinaryOperator" and x.get("opcode") == "="}
-    chk.ob("R01.3", "Records::Write::data-pointer-and-count", asg.get("mData") == "PyArray_DATA(obj)" and "obj" in asg.get("mNrows", ""), W, "mData is the array's buffer and mNrows its size (%s, %s)" % (asg.get("mData"), asg.get("mNrows")))
+    winits = c_inits(w)
+    asg = {cfront.render(x["inner"][0]): c_render(x["inner"][1], winits) for x in cfront.walk(cfront.body_of(w)) if x.get("kind") == "BinaryOperator" and x.get("opcode") == "="}
+    chk.ob(R, "Records::Write::data-pointer-and-count", None if "mData" not in asg or "mNrows" not in asg else (asg["mData"] == "PyArray_DATA(obj)" and "obj" in asg["mNrows"]), cwhere(w), "mData is the array's buffer and mNrows its size (%s, %s)" % (asg.get("mData"), asg.get("mNrows")))
     cfi = cfun["Records::copy_field_info"]
     rs = [cfront.render(x["inner"][1]) for x in cfront.walk(cfront.body_of(cfi)) if x.get("kind") == "BinaryOperator" and x.get("opcode") == "=" and cfront.render(x["inner"][0]) == "mRowSize"]
-    chk.ob("R01.3", "Records::copy_field_info::row-size-is-itemsize", len(rs) == 1 and "descr" in rs[0] and ("ELSIZE" in rs[0] or "elsize" in rs[0]), W, "the row size is the dtype's item size (%s)" % rs)
+    chk.ob(R, "Records::copy_field_info::row-size-is-itemsize", len(rs) == 1 and "descr" in rs[0] and ("ELSIZE" in rs[0] or "elsize" in rs[0]), cwhere(cfi), "the row size is the dtype's item size (%s)" % rs)
     wb = cfun["Records::WriteAllAsBinary"]
     chk.analysed_unit("Records::WriteAllAsBinary")
-    fw = [cfront.render(c) for c in cfront.calls_in(cfront.body_of(wb)) if cfront.callee_name(c) == "fwrite"]
-    chk.ob("R01.3", "Records::WriteAllAsBinary::single-fwrite", fw == ["fwrite(mData, mRowSize, mNrows, mFptr)"], W, "one fwrite of mNrows rows of mRowSize bytes from the buffer (%s)" % fw)
+    binits = c_inits(wb)
+    fwc = [c for c in cfront.calls_in(cfront.body_of(wb)) if cfront.callee_name(c) == "fwrite"]
+    fw = [c_render(c, binits) for c in fwc]
+    chk.ob(R, "Records::WriteAllAsBinary::single-fwrite", None if not fw else fw == ["fwrite(mData, mRowSize, mNrows, mFptr)"], cwhere(wb), "one fwrite of mNrows rows of mRowSize bytes from the buffer (%s)" % fw)
     ccfg = cfront.CCFG(wb)
     thr = [n for n in ccfg.nodes if n.kind == "raise"]
-    conds = [cfront.render(b.c) for n in thr for b, lab in ccfg.view().controlling_branches(n)[:1]]
-    chk.ob("R01.3", "Records::WriteAllAsBinary::short-write-throws", conds == ["(nwrite < mNrows)"], W, "a short write raises (%s)" % conds)
+    rels = [c_controls(ccfg, n, binits) for n in thr]
+    short = False
+    if len(fwc) == 1:
+        cnt = c_render(cfront.call_args(fwc[0])[2], binits)
+        # fwrite returns at most the count asked for: `written < count` and `written != count` both mean a short write
+        short = bool(thr) and any(holds(r, fw[0], "<", cnt) or holds(r, fw[0], "!=", cnt) for r in rels)
+    chk.ob(R, "Records::WriteAllAsBinary::short-write-throws", None if len(fwc) != 1 else short, cwhere(wb), "a short write raises: a throw is control dependent on fwrite(...) < mNrows (%s)" % rels)
     wc = cfront.CCFG(w)
-    disp = [(cfront.render(b.c), lab, cfront.callee_name(c)) for n in wc.nodes for c in cfront.node_calls(n) if cfront.callee_name(c) in ("WriteAllAsBinary", "WriteRows") for b, lab in wc.view().controlling_branches(n)[:1]]
-    chk.ob("R01.3", "Records::Write::binary-dispatch", sorted(disp) == sorted([("(mFileType == BINARY_FILE)", "T", "WriteAllAsBinary"), ("(mFileType == BINARY_FILE)", "F", "WriteRows")]), W, "binary files take the single-fwrite path (%s)" % disp)
+    disp = {}
+    for n in wc.nodes:
+        for c in cfront.node_calls(n):
+            if cfront.callee_name(c) in ("WriteAllAsBinary", "WriteRows"):
+                disp.setdefault(cfront.callee_name(c), []).append(c_controls(wc, n, winits))
+    okd = None
+    if len(disp.get("WriteAllAsBinary", [])) == 1 and len(disp.get("WriteRows", [])) == 1:
+        okd = holds(disp["WriteAllAsBinary"][0], "mFileType", "==", "BINARY_FILE") and holds(disp["WriteRows"][0], "mFileType", "!=", "BINARY_FILE")
+    chk.ob(R, "Records::Write::binary-dispatch", okd, cwhere(w), "binary files take the single-fwrite path (%s)" % disp)
     sft = cfun["Records::set_file_type"]
     sf = [(cfront.render(b.c), lab, cfront.render(n.c)) for n in cfront.CCFG(sft).nodes if n.kind == "stmt" and isinstance(n.c, dict) and "mFileType =" in cfront.render(n.c) for b, lab in cfront.CCFG(sft).view().controlling_branches(n)[:1]]
-    chk.ob("R01.3", "Records::set_file_type::binary-iff-no-delimiter", len(sf) == 2 and all('mDelim == ""' in c for c, _, _ in sf), W, "a file is binary exactly when the delimiter is empty")
+    chk.ob(R, "Records::set_file_type::binary-iff-no-delimiter", len(sf) == 2 and all('mDelim == ""' in c for c, _, _ in sf), cwhere(sft), "a file is binary exactly when the delimiter is empty")
     # readers
+    filedtype = ("attr", SELF, "dtype")
     for q in ("esutil.recfile.Util.Recfile._read_binary_slice", "esutil.recfile.Util.Recfile._read_columns"):
         f = repo.func(q)
         chk.analysed_unit(q)
-        z = [norm(c) for c in walk_no_nested(f.node) if isinstance(c, ast.Call) and call_name(c) == "zeros"]
-        okz = z in (["numpy.zeros(nrows, dtype=self.dtype)"], ["numpy.zeros(nrows, dtype=dtype)"])
-        chk.ob("R01.3", f.name + "::zeroed-buffer-of-file-dtype", okz, f.where(), "rows are read into zeros(n, dtype=<file dtype / its column subset>) (%s)" % z)
+        fev = Ev(repo, f)
+        z = [(e.ev(c, n), kwterm(e, n, c, "dtype")) for e, n, c in find_calls(fev, named("zeros"), follow=False)]
+        okz = len(z) == 1 and z[0][0][0] == "call" and z[0][0][1] == "numpy.zeros" and len(z[0][0][2]) == 1 and z[0][1] is not None and mentions_term(z[0][1], filedtype)
+        chk.ob(R, f.name + "::zeroed-buffer-of-file-dtype", okz, f.where(), "rows are read into zeros(n, dtype=<file dtype / its column subset>) (%s)" % [show(t) for t, _ in z])
     op = repo.func("esutil.recfile.Util.Recfile.open")
-    cfg = cfg_of(op)
-    st = [(norm(n.ast.value), dict(rules.controlling_tests(cfg.view(), n, skip_reject_guards=True))) for n in cfg.nodes if n.kind == "stmt" and isinstance(n.ast, ast.Assign) and norm(n.ast.targets[0]) == "self.dtype"]
-    ok = any(v == "numpy.dtype(dtype)" and "self.is_ascii" not in ts for v, ts in st) and all(("self.is_ascii" in ts and ts["self.is_ascii"] == "T") for v, ts in st if "nbo" in v)
-    chk.ob("R01.3", "Recfile.open::binary-dtype-kept-as-given", ok, op.where(), "for binary files the reader's dtype is numpy.dtype(<given>) with its byte order; stripping is control dependent on the text condition")
+    oev = Ev(repo, op, flags=BINARY)
+    dts = [oev.ev(v, n) if v is not None else None for n, v in oev.attr_defs().get("self.dtype", [])]
+    dts = [t for t in dts if t != NONE]
+
+    def as_given(t):
+        """True: numpy.dtype(<the dtype keyword>); False: the dtype goes through a byte-order changing step; None: not recognised"""
+        if t is not None and t[0] == "call" and t[1] == "numpy.dtype" and len(t[2]) == 1 and not t[3]:
+            x = t[2][0]
+            if x == ("param", "dtype") or (x[0] == "meth" and x[1] == ("param", "keys") and x[2] in ("get", "pop") and x[3][:1] == (lit("dtype"),)):
+                return True
+        if t is not None and any(isinstance(x[0], str) and ((x[0] == "call" and "byteorder" in x[1]) or (x[0] == "meth" and "byteorder" in x[2])) for x in subterms(t) if x):
+            return False
+        return None
+    verdicts = [as_given(t) for t in dts]
+    ok = None if not dts else (False if False in verdicts else (None if None in verdicts else True))
+    chk.ob(R, "Recfile.open::binary-dtype-kept-as-given", ok, op.where(),
+           "for binary files the reader's dtype is numpy.dtype(<given>) with its byte order; stripping is control dependent on the text condition (binary path: %s)" % [show(t) if t else None for t in dts])
     for nm in ("Records::read_binary_columns", "Records::read_binary_slice"):
         ccfg = cfront.CCFG(cfun[nm])
         view = ccfg.view()
         gos = [n for n in ccfg.nodes for c in cfront.node_calls(n) if cfront.callee_name(c) == "goto_offset"]
         rdn = [n for n in ccfg.nodes for c in cfront.node_calls(n) if cfront.callee_name(c) in ("fread", "read_from_binary_column", "skip_rows", "skip_binary_rows", "do_seek")]
-        chk.ob("R01.3", nm + "::seek-to-data-offset-first", bool(gos) and bool(rdn) and all(view.dominates(gos[0], n) for n in rdn), W, "goto_offset() dominates every read/skip")
+        chk.ob(R, nm + "::seek-to-data-offset-first", bool(gos) and bool(rdn) and all(view.dominates(gos[0], n) for n in rdn), cwhere(cfun[nm]), "goto_offset() dominates every read/skip")
     go = cfun["Records::goto_offset"]
     fs = [cfront.render(c) for c in cfront.calls_in(cfront.body_of(go))]
-    chk.ob("R01.3", "Records::goto_offset::absolute-seek", fs == ["fseek(mFptr, mFileOffset, 0)"], W, "goto_offset seeks to the stored data offset from the start of the file (%s)" % fs)
+    chk.ob(R, "Records::goto_offset::absolute-seek", fs == ["fseek(mFptr, mFileOffset, 0)"], cwhere(go), "goto_offset seeks to the stored data offset from the start of the file (%s)" % fs)
     ctor = cfun["Records::Records"]
     asg = [cfront.render(x) for x in cfront.walk(cfront.body_of(ctor)) if x.get("kind") == "BinaryOperator" and x.get("opcode") == "=" and cfront.render(x["inner"][0]) == "mFileOffset"]
-    chk.ob("R01.3", "Records::Records::offset-stored", asg == ["(mFileOffset = offset)"], W, "the data offset given by Python is stored")
+    chk.ob(R, "Records::Records::offset-stored", asg == ["(mFileOffset = offset)"], cwhere(ctor), "the data offset given by Python is stored")
     rb = cfun["Records::read_from_binary_column"]
     fr = [cfront.render(c) for c in cfront.calls_in(cfront.body_of(rb)) if cfront.callee_name(c) == "fread"]
-    chk.ob("R01.3", "Records::read_from_binary_column::field-sized-read", fr == ["fread(buff, mSizes[colnum], 1, mFptr)"], W, "a column is read as its full byte size into the output (%s)" % fr)
+    chk.ob(R, "Records::read_from_binary_column::field-sized-read", fr == ["fread(buff, mSizes[colnum], 1, mFptr)"], cwhere(rb), "a column is read as its full byte size into the output (%s)" % fr)
     # SFile dtype from the header
     so = repo.func("esutil.sfile.SFile.open")
-    env = {norm(a.targets[0]): norm(a.value) for a in walk_no_nested(so.node) if isinstance(a, ast.Assign)}
-    ok = env.get("self._descr") == "_match_key(self._hdr, '_dtype', require=True)" and env.get("self._dtype") == "np.dtype(self._descr)"
-    kw = [norm(kwarg(c, "dtype")) for c in walk_no_nested(so.node) if isinstance(c, ast.Call) and call_name(c) == "Recfile" and kwarg(c, "dtype") is not None]
-    chk.ob("R01.3", "SFile.open::dtype-from-header", ok and kw == ["self._dtype"], so.where(), "the reader's dtype is rebuilt from the header's _DTYPE and handed to the record reader")
+    kw = [e.ev(kwarg(c, "dtype"), n) for e, n, c in find_calls(Ev(repo, so), named("Recfile")) if kwarg(c, "dtype") is not None and kwarg(c, "offset") is not None]
+    ok = False
+    if len(kw) == 1 and kw[0][0] == "call" and kw[0][1] == "numpy.dtype" and len(kw[0][2]) == 1:
+        d = kw[0][2][0]
+        if d[0] == "call" and d[1] == "esutil.sfile._match_key" and len(d[2]) >= 2:
+            hdr_ok = d[2][0] in (("attr", SELF, "_hdr"), ("mcall", "esutil.sfile.SFile.read_header", ()))
+            ok = hdr_ok and is_lit(d[2][1], str) and d[2][1][1].lower() == "_dtype" and (dict(d[3]).get("require") == lit(True) or (len(d[2]) == 3 and d[2][2] == lit(True)))
+    chk.ob(R, "SFile.open::dtype-from-header", ok, so.where(), "the reader's dtype is rebuilt from the header's _DTYPE and handed to the record reader (dtype=%s)" % [show(t) for t in kw])
 
 
-def header_content(chk, repo):
+# ---------------------------------------------------------------------------
+def _ancestors(fn):
+    """{id(stmt): [(compound statement, 'body' | 'orelse'), ...]} outermost first (nested defs skipped)"""
+    out = {}
+
+    def walk(stmts, chain):
+        for s in stmts:
+            out[id(s)] = chain
+            if isinstance(s, (ast.FunctionDef, ast.AsyncFunctionDef, ast.ClassDef)):
+                continue
+            for field in ("body", "orelse", "finalbody"):
+                sub = getattr(s, field, None)
+                if isinstance(sub, list) and sub and isinstance(sub[0], ast.stmt):
+                    walk(sub, chain + [(s, field)])
+            for h in getattr(s, "handlers", []) or []:
+                walk(h.body, chain + [(s, "handler")])
+    walk(fn.body, [])
+    return out
+
+
+def _is_keys_of(e, H):
+    """does the expression iterate over the keys of the dict named H (a snapshot or the live view)"""
+    if isinstance(e, ast.Name):
+        return e.id == H
+    if isinstance(e, ast.Call) and not e.keywords:
+        if isinstance(e.func, ast.Name) and e.func.id in ("list", "tuple", "sorted", "set", "frozenset") and len(e.args) == 1:
+            return _is_keys_of(e.args[0], H)
+        if isinstance(e.func, ast.Attribute) and e.func.attr in ("keys", "copy") and not e.args:
+            return _is_keys_of(e.func.value, H)
+    return False
+
+
+def removed_keys(mh, H):
+    """Which keys _make_header removes from the dict named H.  Returns (keys, problems, unknown):
+    keys     -- set of constant key strings removed (for removals driven by a constant list of names),
+    patterns -- [(case method or None, set of constants)] for removals of the dict's own keys k with f(k) in <constants>,
+    problems -- positively identified removals of keys outside any constant list (text),
+    unknown  -- removals whose key could not be determined (text)."""
+    anc = _ancestors(mh.node)
+    mod = mh.module
+    local = {}
+    for nm, v in rules.single_defs(mh.node).items():
+        try:
+            local[nm] = const_eval(v, {}, mod)
+        except NotConst:
+            pass
+    keys, patterns, problems, unknown = set(), [], [], []
+    sites = []
+    for s in walk_no_nested(mh.node):
+        if isinstance(s, ast.Delete):
+            for t in s.targets:
+                if isinstance(t, ast.Subscript) and isinstance(t.value, ast.Name) and t.value.id == H:
+                    sites.append((s, t.slice, "del"))
+                elif isinstance(t, ast.Name) and t.id == H:
+                    unknown.append("del %s" % H)
+        elif isinstance(s, ast.stmt):
+            for c in [x for x in ast.walk(s) if isinstance(x, ast.Call)] if isinstance(s, (ast.Expr, ast.Assign, ast.AugAssign, ast.Return)) else []:
+                if isinstance(c.func, ast.Attribute) and isinstance(c.func.value, ast.Name) and c.func.value.id == H:
+                    if c.func.attr == "pop" and c.args:
+                        sites.append((s, c.args[0], "pop" if len(c.args) > 1 else "pop1"))
+                    elif c.func.attr in ("popitem", "clear"):
+                        unknown.append("%s.%s()" % (H, c.func.attr))
+    for s, key, how in sites:
+        chain = anc.get(id(s), [])
+        loops = [c for c, f in chain if isinstance(c, (ast.For, ast.While))]
+        guards = [(c, f) for c, f in chain if isinstance(c, ast.If)]
+        if any(isinstance(l, ast.While) or not isinstance(l.target, ast.Name) for l in loops):
+            unknown.append(norm(s))
+            continue
+        # (A) every enclosing loop runs over constants: enumerate
+        try:
+            envs = [dict(local)]
+            for l in loops:
+                envs = [dict(en, **{l.target.id: v}) for en in envs for v in _iter_const(l.iter, en, mod)]
+            ks = {const_eval(key, en, mod) for en in envs}
+            if not all(isinstance(k, str) for k in ks):
+                raise NotConst()
+            # guards may only ask whether that key is present
+            okg = all(f == "body" and isinstance(g.test, ast.Compare) and len(g.test.ops) == 1 and isinstance(g.test.ops[0], ast.In)
+                      and pat.same(g.test.left, key) and isinstance(g.test.comparators[0], ast.Name) and g.test.comparators[0].id == H for g, f in guards)
+            if okg:
+                keys |= ks
+            else:
+                unknown.append("%s under %s" % (norm(s), [norm(g.test) for g, f in guards]))
+            continue
+        except NotConst:
+            pass
+        # (B) the loop runs over the dict's own keys and a guard selects them by membership in a constant
+        if loops and isinstance(key, ast.Name) and key.id == loops[-1].target.id and _is_keys_of(loops[-1].iter, H):
+            conj = []
+            for g, f in guards:
+                if f != "body":
+                    conj = None
+                    break
+                conj.extend(g.test.values if isinstance(g.test, ast.BoolOp) and isinstance(g.test.op, ast.And) else [g.test])
+            sel = None
+            for t in conj or []:
+                if isinstance(t, ast.Compare) and len(t.ops) == 1 and isinstance(t.ops[0], ast.In):
+                    l = t.left
+                    meth = None
+                    if isinstance(l, ast.Call) and isinstance(l.func, ast.Attribute) and l.func.attr in ("lower", "upper") and not l.args:
+                        meth, l = l.func.attr, l.func.value
+                    if isinstance(l, ast.Name) and l.id == key.id:
+                        try:
+                            sel = (meth, const_eval(t.comparators[0], local, mod), norm(t))
+                        except NotConst:
+                            pass
+            if sel is not None:
+                meth, coll, text = sel
+                if isinstance(coll, str):
+                    problems.append("`%s` is a substring test against the text %r: every user key that occurs anywhere inside it (e.g. %r) is removed"
+                                    % (text, coll, coll.split()[0].strip("_")[:4] if coll.split() else ""))
+                elif all(isinstance(k, str) for k in coll):
+                    patterns.append((meth, set(coll)))
+                else:
+                    unknown.append(norm(s))
+                continue
+        unknown.append(norm(s))
+    return keys, patterns, problems, unknown
+
+
+def _iter_const(e, env, mod):
+    v = const_eval(e, env, mod)
+    if isinstance(v, str) or not hasattr(v, "__iter__"):
+        raise NotConst()
+    return list(v)
+
+
+def _split_ifexp(ev, value, at):
+    """[(value expr, [canonical literals])] for a possibly conditional expression"""
+    if isinstance(value, ast.IfExp):
+        return [(v, canon(ev, value.test, True, at) + l) for v, l in _split_ifexp(ev, value.body, at)] + \
+               [(v, canon(ev, value.test, False, at) + l) for v, l in _split_ifexp(ev, value.orelse, at)]
+    return [(value, [])]
+
+
+def header_content(chk, repo, fr):
+    R = "R01.4"
     mh = repo.func("esutil.sfile.SFile._make_header")
     chk.analysed_unit(mh.qualname)
-    cfg = cfg_of(mh)
-    view = cfg.view()
-    heads = [(norm(n.ast.value), dict(rules.controlling_tests(view, n))) for n in cfg.nodes if n.kind == "stmt" and isinstance(n.ast, ast.Assign) and norm(n.ast.targets[0]) == "head"]
-    ok = ("copy.deepcopy(header)", {"header is None": "F"}) in heads and ("{}", {"header is None": "T"}) in heads
-    chk.ob("R01.4", "_make_header::user-header-deep-copied", ok, mh.where(), "the stored header starts as a deep copy of the user's dict (or empty): %s" % heads)
-    loops = [x for x in walk_no_nested(mh.node) if isinstance(x, ast.For) and isinstance(x.iter, ast.List)]
-    keys = [e.value for e in loops[0].iter.elts if isinstance(e, ast.Constant)] if loops else []
-    chk.ob("R01.4", "_make_header::only-reserved-keys-removed", bool(keys) and all(k.startswith("_") for k in keys), mh.where(), "only underscore-prefixed reserved keys are removed from the user header (%s)" % keys)
-    dels = [norm(x) for x in ast.walk(loops[0]) if isinstance(x, ast.Delete)] if loops else []
-    chk.ob("R01.4", "_make_header::removal-by-loop-key", sorted(dels) == ["del head[key.upper()]", "del head[key]"], mh.where(), "removal touches only the listed keys (both spellings)")
-    st = {norm(n.ast.targets[0]): (norm(n.ast.value), dict(rules.controlling_tests(view, n))) for n in cfg.nodes if n.kind == "stmt" and isinstance(n.ast, ast.Assign) and norm(n.ast.targets[0]).startswith("head[")}
-    chk.ob("R01.4", "_make_header::dtype-and-version", st.get("head['_DTYPE']") == ("descr", {}) and st.get("head['_VERSION']", ("",))[0] == "SFILE_VERSION", mh.where(), "_DTYPE and _VERSION are always recorded")
-    ds = [(norm(n.ast.value), dict(rules.controlling_tests(view, n))) for n in cfg.nodes if n.kind == "stmt" and isinstance(n.ast, ast.Assign) and norm(n.ast.targets[0]) == "descr"]
-    chk.ob("R01.4", "_make_header::binary-dtype-unmodified", ("data.dtype.descr", {}) in ds and all(ts.get("self._delim is not None") == "T" for v, ts in ds if v != "data.dtype.descr"), mh.where(), "for binary files _DTYPE is data.dtype.descr unmodified (byte order, shapes, names)")
-    rets = [norm(x.value) for x in walk_no_nested(mh.node) if isinstance(x, ast.Return)]
-    chk.ob("R01.4", "_make_header::returns-head", rets == ["head"], mh.where(), "the built dict is returned")
+    ev = Ev(repo, mh)
+    rets = _returns(ev)
+    rnames = {n.ast.value.id if isinstance(n.ast.value, ast.Name) else None for n in rets}
+    H = next(iter(rnames)) if len(rnames) == 1 and None not in rnames else None
+    chk.ob(R, "_make_header::returns-head", True if H else None, mh.where(), "the built dict is returned (every return gives back the one dict the function fills: %s)" % H)
+    if H is None:
+        return
+    data = ("param", mh.params[1])
+    header = ("param", "header")
+    # where the dict comes from, case by case
+    origins = []
+    for n in ev.view.nodes():
+        if n.kind == "stmt" and isinstance(n.ast, ast.Assign) and any(isinstance(t, ast.Name) and t.id == H for t in n.ast.targets):
+            base = path_literals(ev, n)
+            for v, lits in _split_ifexp(ev, n.ast.value, n):
+                origins.append((ev.ev(v, n), base + lits, n))
+    isnone = ("cmp", "Is", header, NONE)
+    deep = ("call", "copy.deepcopy", (header,), ())
+    empty = (("dict", ()), ("call", "dict", (), ()))
+    shallow = (header, ("call", "dict", (header,), ()), ("meth", header, "copy", (), ()), ("call", "copy.copy", (header,), ()))
+    given = lambda L: (isnone, False) in L or (header, True) in L          # a header was passed (`is not None`, or truthy: an empty dict needs no copy)
+    absent = lambda L: (isnone, True) in L or (header, False) in L
+    deeps = [n for t, L, n in origins if t == deep and given(L)]
+    # an unconditional `head = {}` that the copy, made later when a header was given, replaces is the same thing as the else arm
+    default = lambda L, n: not given(L) and not absent(L) and bool(deeps) and not any(ev.view.reaches(d, n) for d in deeps)
+    good = [(t in empty and (absent(L) or default(L, n))) or (t == deep and given(L)) for t, L, n in origins]
+    if not origins:
+        ok = None
+    elif all(good) and deeps and any(t in empty for t, L, n in origins):
+        ok = True
+    elif any(t in shallow for t, L, n in origins) or any(t == deep and absent(L) for t, L, n in origins) or any(t in empty and given(L) for t, L, n in origins):
+        ok = False          # the caller's dict itself / a shallow copy is stored, or the arms are exchanged
+    else:
+        ok = None
+    chk.ob(R, "_make_header::user-header-deep-copied", ok, mh.where(), "the stored header starts as a deep copy of the user's dict (or empty when none was given): %s"
+           % [(show(t), [(show(a), b) for a, b in L]) for t, L, n in origins])
+    keys, patterns, problems, unknown = removed_keys(mh, H)
+    allk = set(keys)
+    for meth, coll in patterns:
+        allk |= coll
+    if problems:
+        okk, okc = False, False
+    elif unknown or not allk:
+        okk = okc = None
+    else:
+        okk = all(k.startswith("_") for k in allk)
+        # both spellings: the constant-driven removals are closed under lower()/upper(); a removal selected through
+        # key.lower()/key.upper() covers every spelling by construction
+        okc = all(k.lower() in keys and k.upper() in keys for k in keys) and all(meth is not None or all(k.lower() in coll and k.upper() in coll for k in coll) for meth, coll in patterns)
+    why = "; ".join(problems) if problems else ("not recognised: %s" % unknown if unknown else sorted(allk))
+    chk.ob(R, "_make_header::only-reserved-keys-removed", okk, mh.where(), "only underscore-prefixed reserved keys are removed from the user header (%s)" % why)
+    chk.ob(R, "_make_header::removal-by-loop-key", okc, mh.where(), "removal touches only the listed keys (both spellings) (%s)" % why)
+
+    def stores(e_, key):
+        return [n for n in e_.view.nodes() if n.kind == "stmt" and isinstance(n.ast, ast.Assign) and any(
+            isinstance(t, ast.Subscript) and isinstance(t.value, ast.Name) and t.value.id == H and isinstance(t.slice, ast.Constant) and t.slice.value == key for t in n.ast.targets)]
+    sd, sv = stores(ev, "_DTYPE"), stores(ev, "_VERSION")
+    if not sd or not sv:
+        always = None
+    else:
+        always = not any(ev.view.path_exists_entry_to(r, avoiding=s) for r in rets for s in (sd, sv))
+    version = ev.modev().ev(mh.module.consts["SFILE_VERSION"]) if "SFILE_VERSION" in mh.module.consts else None
+    vok = bool(sv) and version is not None and all(ev.ev(n.ast.value, n) == version for n in sv)
+    chk.ob(R, "_make_header::dtype-and-version", None if always is None else (always and vok), mh.where(), "_DTYPE and _VERSION (= SFILE_VERSION) are recorded on every path to the return")
+    bev = Ev(repo, mh, flags={"self._delim": None})
+    bd = [bev.ev(n.ast.value, n) for n in stores(bev, "_DTYPE")]
+    descr = ("attr", ("attr", data, "dtype"), "descr")
+    same = lambda t: t == descr or (t[0] == "call" and t[1] in ("list", "copy.copy", "copy.deepcopy") and t[2] == (descr,) and not t[3])
+    if not bd or any(not same(t) and opaque(t) for t in bd):
+        okb = None          # nothing stored on the binary path that this rule can read
+    else:
+        okb = all(same(t) for t in bd)
+    chk.ob(R, "_make_header::binary-dtype-unmodified", okb, mh.where(),
+           "for binary files _DTYPE is data.dtype.descr unmodified (byte order, shapes, names) (binary path stores %s)" % [show(t) for t in bd])
     # user's dict is not mutated: effect analysis
     eng = effects.Effects(repo, c_summaries())
     import checks.C15 as C15
     s = C15.analyse_with_arrays(eng, repo.func("esutil.sfile.SFile.write"), ["header"], {})
     sites = s.mut.get("header", [])
-    chk.ob("R01.4", "SFile.write::user-header-not-modified", not sites, mh.where(), "no store or deletion reaches the caller's header dict%s" % ("" if not sites else ": " + sites[0].describe()))
+    chk.ob(R, "SFile.write::user-header-not-modified", not sites, mh.where(), "no store or deletion reaches the caller's header dict%s" % ("" if not sites else ": " + sites[0].describe()))
     wh = repo.func("esutil.sfile.SFile._write_header")
-    env = {norm(a.targets[0]): norm(a.value) for a in walk_no_nested(wh.node) if isinstance(a, ast.Assign)}
-    chk.ob("R01.4", "_write_header::dict-pretty-printed", env.get("hdr_dict_string") == "pprint.pformat(self._hdr)" and env.get("self._hdr") == "self._make_header(data, header=header)", wh.where(), "the header text is pprint.pformat of the built dict")
+    want = ("mcall", mh.qualname, (("data", ("param", "data")), ("header", ("param", "header"))))
+    got = fr.get("dict_arg")
+    chk.ob(R, "_write_header::dict-pretty-printed", None if got is None else got == want, fr.get("where", wh.where()),
+           "the header text is pprint.pformat of the dict built by _make_header(data, header=header) (%s)" % (show(got) if got is not None else "header text not evaluated"))
     rh = repo.func("esutil.sfile.SFile.read_header")
-    env = {norm(a.targets[0]): norm(a.value) for a in walk_no_nested(rh.node) if isinstance(a, ast.Assign)}
-    chk.ob("R01.4", "read_header::dict-evaluated", env.get("hdr") == "eval(hdrdict_string)" and env.get("hdrdict_string") == "' '.join(hdrdict_string_lines)", rh.where(), "the dict lines are re-joined and evaluated")
+    ht = fr.get("read_header_value")
+    if ht is None:
+        rev = Ev(repo, rh)
+        rr = _return_terms(rev)
+        ht = rr[0] if len(rr) == 1 else None
+    okr = None
+    if ht is not None and ht[0] == "call" and ht[1] in ("eval", "ast.literal_eval") and len(ht[2]) == 1:
+        j = ht[2][0]
+        if j[0] == "meth" and j[2] == "join" and is_lit(j[1], str) and len(j[3]) == 1 and line_slice(j[3][0]) is not None:
+            # lines glued with nothing (or with text) between them do not give back what pprint wrote
+            okr = j[1][1] != "" and j[1][1].strip() == ""
+    chk.ob(R, "read_header::dict-evaluated", okr, rh.where(), "the dict lines are re-joined with white space and evaluated (%s)" % (show(ht) if ht is not None else None))
     rd = repo.func("esutil.sfile.SFile.read")
-    rets = [x for x in walk_no_nested(rd.node) if isinstance(x, ast.Return) and isinstance(x.value, ast.Tuple)]
-    chk.ob("R01.4", "SFile.read::header-returned-by-copy", len(rets) == 1 and norm(rets[0].value.elts[1]) == "copy.deepcopy(self._hdr)", rd.where(), "read(header=True) returns a deep copy of the stored header")
+    rdev = Ev(repo, rd)
+    tups = [rdev.ev(v.elts[1], n) for n in _returns(rdev) if n.ast.value is not None for v, _ in _split_ifexp(rdev, n.ast.value, n)
+            if isinstance(v, ast.Tuple) and len(v.elts) == 2]
+    stored = ("attr", SELF, "_hdr")
+    alias = (stored, ("call", "dict", (stored,), ()), ("meth", stored, "copy", (), ()), ("call", "copy.copy", (stored,), ()))
+    if tups and all(t == ("call", "copy.deepcopy", (stored,), ()) for t in tups):
+        okc = True
+    elif any(t in alias for t in tups):
+        okc = False         # the handle's own dict (or a shallow copy sharing its values) is handed out
+    else:
+        okc = None
+    chk.ob(R, "SFile.read::header-returned-by-copy", okc, rd.where(),
+           "read(header=True) returns a deep copy of the stored header (%s)" % [show(t) for t in tups])
 
 
 def front_ends(chk, repo):
+    R = "R01.5"
+    has_data = lambda t: mentions_term(t, ("param", "data"))
     table = [
-        ("esutil.sfile.write", "SFile", {0: "outfile"}), ("esutil.sfile.write", "write", {0: "data", "header": "header"}),
+        ("esutil.sfile.write", "SFile", {0: "outfile"}), ("esutil.sfile.write", "write", {0: "data", "header": "keys.get('header', None)"}),
         ("esutil.sfile.read", "SFile", {0: "filename"}), ("esutil.sfile.read_header", "SFile", {0: "filename"}),
         ("esutil.sfile.SFile.write", "_write_header", {0: "data", "header": "header"}), ("esutil.sfile.SFile.write", "write", {0: "data"}),
         ("esutil.recfile.Util.write", "Recfile", {0: "filename", "mode": "mode"}), ("esutil.recfile.Util.write", "write", {0: "data"}),
         ("esutil.recfile.Util.read", "Recfile", {0: "filename", "dtype": "dtype", "mode": "'r'"}),
-        ("esutil.recfile.Util.Recfile.write", "Write", {0: "dataview"}),
+        ("esutil.recfile.Util.Recfile.write", "Write", {0: has_data}),
         ("esutil.io.write_rec", "write", {0: "data", 1: "fileobj"}),
         ("esutil.io.read_rec_plain", "Recfile", {0: "fileobj"}),
     ]
     for q, callee, roles in table:
         fi = repo.func(q)
         chk.analysed_unit(q)
-        calls = [c for c in walk_no_nested(fi.node) if isinstance(c, ast.Call) and call_name(c) == callee]
+        ev = Ev(repo, fi)
+        calls = find_calls(ev, named(callee))
         if not calls:
-            chk.ob("R01.5", "%s->%s::present" % (q, callee), False, fi.where(), "expected call to %s not found" % callee)
+            chk.ob(R, "%s->%s::present" % (q, callee), False, fi.where(), "expected call to %s not found" % callee)
             continue
         okany = False
-        for c in calls:
+        for e, n, c in calls:
             bad = []
             for role, want in roles.items():
-                got = norm(c.args[role]) if isinstance(role, int) and role < len(c.args) else (norm(kwarg(c, role)) if not isinstance(role, int) and kwarg(c, role) is not None else None)
-                if got != want:
-                    bad.append("%s=%s (want %s)" % (role, got, want))
+                a = (c.args[role] if role < len(c.args) else None) if isinstance(role, int) else kwarg(c, role)
+                if a is None or any(isinstance(x, ast.Starred) for x in c.args[:role + 1 if isinstance(role, int) else 0]):
+                    bad.append("%s missing" % (role,))
+                    continue
+                got = e.ev(a, n)
+                if callable(want):
+                    good = want(got)
+                else:
+                    # the wanted value is written in terms of the parameters of the front end and evaluated in the front end
+                    # (at the call when the call is there, at its end when the call sits in a helper)
+                    good = got == ev.ev_src(want, n if e is ev else ev.cfg.exit)
+                if not good:
+                    bad.append("%s=%s (want %s)" % (role, show(got), want if not callable(want) else "derived from data"))
             okany = okany or not bad
-        chk.ob("R01.5", "%s->%s::roles" % (q, callee), okany, fi.where(), "%s calls %s with %s" % (fi.name, callee, roles))
+        chk.ob(R, "%s->%s::roles" % (q, callee), okany, fi.where(), "%s calls %s with %s" % (fi.name, callee, {k: (v if not callable(v) else "<data>") for k, v in roles.items()}))
     sw = repo.func("esutil.sfile.write")
-    swap = [norm(a) for a in walk_no_nested(sw.node) if isinstance(a, ast.Assign) and isinstance(a.targets[0], ast.Tuple)]
-    cfg = cfg_of(sw)
-    n = [x for x in cfg.nodes if x.kind == "stmt" and isinstance(x.ast, ast.Assign) and isinstance(x.ast.targets[0], ast.Tuple)]
-    ok = [w.replace("(", "").replace(")", "") for w in swap] == ["outfile, data = data, outfile"] and rules.controlling_tests(cfg.view(), n[0])[:1] == [("isinstance(outfile, np.ndarray)", "T")]
-    chk.ob("R01.5", "sfile.write::argument-swap-branch", ok, sw.where(), "write(data, file) is accepted by swapping exactly when the first argument is an array")
+    sev = Ev(repo, sw)
+    swaps = []
+    for n in sev.view.nodes():
+        a = n.ast
+        if n.kind == "stmt" and isinstance(a, ast.Assign) and isinstance(a.targets[0], ast.Tuple) and isinstance(a.value, ast.Tuple) and len(a.targets[0].elts) == 2:
+            t, v = [norm(x) for x in a.targets[0].elts], [norm(x) for x in a.value.elts]
+            if t == v[::-1] and set(t) == {"outfile", "data"}:
+                swaps.append(n)
+    isarr = (("call", "isinstance", (("param", "outfile"), ("glob", "numpy.ndarray")), ()), True)
+    ok = len(swaps) == 1 and path_literals(sev, swaps[0]) == [isarr]
+    chk.ob(R, "sfile.write::argument-swap-branch", ok, sw.where(), "write(data, file) is accepted by swapping exactly when the first argument is an array")
     ior = repo.func("esutil.io.read")
     iow = repo.func("esutil.io.write")
     for f, callee in ((ior, "read_rec"), (iow, "write_rec")):
@@ -302,71 +1609,61 @@ def front_ends(chk, repo):
         hits = [(norm(c), rules.controlling_tests(cfg.view(), n)[:1]) for n in cfg.nodes for c in rules.stmts_calls(n) if call_name(c) == callee]
         want = "%s(fobj, **keywords)" % callee if callee == "read_rec" else "%s(fobj, data, **keywords)" % callee
         ok = len(hits) == 1 and hits[0][0] == want and hits[0][1] == [("type == 'rec'", "T")]
-        chk.ob("R01.5", "io.%s::rec-dispatch" % f.name, ok, f.where(), "type 'rec' dispatches to %s (%s)" % (want, hits))
+        chk.ob(R, "io.%s::rec-dispatch" % f.name, ok, f.where(), "type 'rec' dispatches to %s (%s)" % (want, hits))
     rr = repo.func("esutil.io.read_rec")
     chk.analysed_unit(rr.qualname)
-    calls = [norm(c) for c in walk_no_nested(rr.node) if isinstance(c, ast.Call) and dotted_name(c.func) == "sfile.read"]
-    ok = len(calls) == 2 and all("fileobj" in c and "rows=rows" in c and "columns=columns" in c and "fields=fields" in c and "header=header" in c for c in calls)
-    chk.ob("R01.5", "io.read_rec::forwards-selection", ok, rr.where(), "read_rec forwards file, header=, rows=, fields=, columns= to sfile.read")
-    cfg = cfg_of(rr)
-    tn = [(n, rules.controlling_tests(cfg.view(), n)[:1]) for n in cfg.nodes for c in rules.stmts_calls(n) if call_name(c) == "to_native"]
-    chk.ob("R01.5", "io.read_rec::byte-order-kept-unless-asked", len(tn) == 1 and tn[0][1] == [("ensure_native", "T")], rr.where(), "the byte order read from the file is changed only when ensure_native is requested")
+    rev = Ev(repo, rr)
+    calls = [(e, n, c) for e, n, c in find_calls(rev, lambda c: dotted_name(c.func) == "sfile.read", follow=False)]
+    ok = bool(calls)
+    for e, n, c in calls:
+        ok = ok and len(c.args) >= 1 and e.ev(c.args[0], n) == ("param", "fileobj")
+        for k in ("header", "rows", "columns", "fields"):
+            v = kwarg(c, k)
+            t = e.ev(v, n) if v is not None else None
+            ok = ok and t is not None and t[0] == "meth" and t[1] == ("param", "keys") and t[2] == "get" and t[3][:1] == (lit(k),)
+    chk.ob(R, "io.read_rec::forwards-selection", ok, rr.where(), "read_rec forwards file, header=, rows=, fields=, columns= to sfile.read (%d call(s))" % len(calls))
+    tn = [(n, path_literals(rev, n)) for e, n, c in find_calls(rev, named("to_native"), follow=False)]
+    asked = (rev.ev_src("keys.get('ensure_native', False)", rev.cfg.entry), True)
+    chk.ob(R, "io.read_rec::byte-order-kept-unless-asked", len(tn) == 1 and asked in tn[0][1], rr.where(), "the byte order read from the file is changed only when ensure_native is requested")
 
 
 # ---------------------------------------------------------------------------
 def row_count(chk, repo):
     """R01.6: when the row count of a binary file is not given it is (file size - data offset) // row size: a header-bearing file
     read through the plain record reader (recfile.read / io.read with dtype= and offset=) must not count its header as rows"""
-    from vcheck.rules import cfg_of
-    from vcheck import rules
+    R = "R01.6"
     fi = repo.func("esutil.recfile.Util.Recfile._count_nrows")
     chk.analysed_unit(fi.qualname)
-    cfg = cfg_of(fi)
-    view = cfg.view()
-    env = {}
-    for x in sorted([a for a in walk_no_nested(fi.node) if isinstance(a, ast.Assign) and len(a.targets) == 1 and isinstance(a.targets[0], ast.Name)], key=lambda a: a.lineno):
-        env.setdefault(x.targets[0].id, []).append(x)
-
-    def expand(e, depth=0):
-        """substitute single-definition locals (one level at a time, bounded)"""
-        if depth > 4:
-            return e
-        if isinstance(e, ast.Name) and len(env.get(e.id, [])) == 1:
-            return expand(env[e.id][0].value, depth + 1)
-        if isinstance(e, ast.BinOp):
-            return ast.BinOp(left=expand(e.left, depth + 1), op=e.op, right=expand(e.right, depth + 1))
-        return e
-    rets = [n for n in rules.return_nodes(cfg)]
-    rv = norm(rets[0].ast.value) if len(rets) == 1 and rets[0].ast.value is not None else None
-    cands = []
-    for n in cfg.nodes:
-        if n.kind == "stmt" and isinstance(n.ast, ast.Assign) and norm(n.ast.targets[0]) == rv and isinstance(n.ast.value, ast.BinOp) and isinstance(n.ast.value.op, ast.FloorDiv):
-            ts = dict(rules.controlling_tests(view, n))
-            if ts.get("self.delim is not None") == "F" or ts.get("self.delim is None") == "T":
-                cands.append(n)
-    ok = len(cands) == 1
-    chk.ob("R01.6", "_count_nrows::binary-arm-found", ok, fi.where(), "the binary arm derives the row count by an integer division")
-    if not ok:
+    ev = Ev(repo, fi, flags=BINARY)
+    rets = [(n, ev.ev(n.ast.value, n)) for n in _returns(ev) if n.ast.value is not None]
+    cands = [(n, t) for n, t in rets if t[0] == "op" and t[1] == "//"]
+    found = len(rets) == 1 and len(cands) == 1
+    chk.ob(R, "_count_nrows::binary-arm-found", True if found else None, fi.where(), "on the binary path the row count returned is an integer division (%s)" % [show(t) for n, t in rets])
+    if not found:
         return
-    n = cands[0]
-    num = expand(n.ast.value.left)
-    den = expand(n.ast.value.right)
-    okd = norm(den) == "self.dtype.itemsize"
-    okn = isinstance(num, ast.BinOp) and isinstance(num.op, ast.Sub) and norm(num.right) == "self.offset"
+    n, t = cands[0]
+    num, den = t[2], t[3]
+    okd = den == ("attr", ("attr", SELF, "dtype"), "itemsize")
+    okn = num[0] == "op" and num[1] == "-" and num[3] == ("attr", SELF, "offset")
     size_ok = False
-    if okn:
-        sz = num.left
-        if isinstance(sz, ast.Call) and call_name(sz) == "tell":
-            seeks = [m for m in cfg.nodes if m.kind == "stmt" and any(call_name(c) == "seek" and len(c.args) == 2 and norm(c.args[0]) == "0" and norm(c.args[1]) in ("2", "os.SEEK_END")
-                                                                     and norm(c.func.value) == norm(sz.func.value) for c in rules.stmts_calls(m))]
-            tell_node = next((m for m in cfg.nodes if m.kind == "stmt" and any(c is sz for c in rules.stmts_calls(m))), None)
-            if tell_node is None:
-                tell_node = next((m for m in cfg.nodes if m.kind == "stmt" and isinstance(m.ast, ast.Assign) and len(env.get(norm(m.ast.targets[0]), [])) == 1
-                                  and any(call_name(c) == "tell" for c in rules.stmts_calls(m))), None)
-            size_ok = bool(seeks) and tell_node is not None and any(view.dominates(sk, tell_node) for sk in seeks)
-        elif isinstance(sz, ast.Call) and call_name(sz) in ("getsize",):
-            size_ok = norm(sz.args[0]) == "self.filename"
-        elif isinstance(sz, ast.Attribute) and sz.attr == "st_size":
-            size_ok = True
-    chk.ob("R01.6", "_count_nrows::rows-are-(size-offset)//rowsize", bool(okd and okn and size_ok), fi.where(n.ast),
-           "row count = (size of the file - self.offset) // self.dtype.itemsize with the size taken at end of file (found `%s // %s`)" % (norm(num), norm(den)))
+    sz = num[2] if num[0] == "op" and num[1] == "-" else num
+    if sz[0] == "meth" and sz[2] == "tell" and not sz[3]:
+        # the position is the size only when taken at the end of the file: a seek(0, 2) on the same object dominates the tell()
+        seeks, tells = [], []
+        for e2, m, c in find_calls(ev, named("seek", "tell"), follow=False):
+            obj = e2.ev(c.func.value, m) if isinstance(c.func, ast.Attribute) else None
+            if obj != sz[1]:
+                continue
+            if call_name(c) == "tell":
+                tells.append(m)
+            elif len(c.args) == 2 and e2.ev(c.args[0], m) == lit(0) and e2.ev(c.args[1], m) in (lit(2), ("glob", "os.SEEK_END"), ("glob", "io.SEEK_END")):
+                seeks.append(m)
+        others = [m for e2, m, c in find_calls(ev, named("seek", "read", "readline", "readlines"), follow=False) if m not in seeks]
+        size_ok = len(tells) == 1 and any(ev.view.dominates(sk, tells[0]) and sk.id != tells[0].id
+                                          and not any(ev.view.reaches(sk, m) and ev.view.reaches(m, tells[0]) for m in others) for sk in seeks)
+    elif sz[0] == "call" and sz[1] == "os.path.getsize" and len(sz[2]) == 1:
+        size_ok = sz[2][0] == ("attr", SELF, "filename")
+    elif sz[0] == "attr" and sz[2] == "st_size" and sz[1][0] == "call" and sz[1][1] in ("os.stat", "os.fstat"):
+        size_ok = True
+    chk.ob(R, "_count_nrows::rows-are-(size-offset)//rowsize", None if (opaque(t) and not (okd and okn and size_ok)) else bool(okd and okn and size_ok), fi.where(n.ast),
+           "row count = (size of the file - self.offset) // self.dtype.itemsize with the size taken at end of file (found `%s`)" % show(t))
